@@ -891,4 +891,2136 @@ theorem sound_sl (P : Program) : ∀ n,
         | _ => rw [hev] at ih1; simp [ResOK] at ih1 ⊢; try exact ih1
 
 
+
+set_option maxHeartbeats 3200000
+
+-- ================================================================== (part 1)
+
+
+-- ------------------------------------------------------------------ inferred types
+
+mutual
+/-- Types the checker INFERS on the fragment: like `good`, but without `Any`. -/
+def gi : Ty → Bool
+  | .tuple ts => giL ts
+  | .user _ n [] => goodName0 n
+  | .user _ n [a] => (n == "List" || n == "Option") && gi a
+  | _ => false
+def giL : List Ty → Bool
+  | [] => true
+  | t :: ts => gi t && giL ts
+end
+
+mutual
+theorem gi_good : ∀ T : Ty, gi T = true → good T = true
+  | .any, h => by simp [gi] at h
+  | .err, h => by simp [gi] at h
+  | .param _, h => by simp [gi] at h
+  | .fn _ _ _ _, h => by simp [gi] at h
+  | .tuple ts, h => by simp [gi] at h; simp [good, giL_good ts h]
+  | .user _ n [], h => by simp [gi] at h; simp [good, h]
+  | .user _ n [a], h => by simp [gi] at h; simp [good, h.1, gi_good a h.2]
+  | .user _ n (_ :: _ :: _), h => by simp [gi] at h
+theorem giL_good : ∀ ts : List Ty, giL ts = true → goodL ts = true
+  | [], h => by simp [goodL]
+  | t :: ts, h => by simp [giL] at h; simp [goodL, gi_good t h.1, giL_good ts h.2]
+end
+
+mutual
+theorem Hint.toTy_gi : ∀ h : Hint, gi h.toTy = true
+  | .int => by simp [Hint.toTy, tInt, gi, goodName0]
+  | .bool => by simp [Hint.toTy, tBool, gi, goodName0]
+  | .str => by simp [Hint.toTy, tStr, gi, goodName0]
+  | .unit => by simp [Hint.toTy, tUnit, gi, goodName0]
+  | .list h => by simp [Hint.toTy, tList, gi, Hint.toTy_gi h]
+  | .option h => by simp [Hint.toTy, tOption, gi, Hint.toTy_gi h]
+  | .tuple hs => by simp [Hint.toTy, gi, Hint.toTys_gi hs]
+theorem Hint.toTys_gi : ∀ hs : List Hint, giL (Hint.toTys hs) = true
+  | [] => by simp [Hint.toTys, giL]
+  | h :: hs => by simp [Hint.toTys, giL, Hint.toTy_gi h, Hint.toTys_gi hs]
+end
+
+theorem gi_not_any (T : Ty) (h : gi T = true) : T.isAny = false := by
+  cases T <;> simp [gi, Ty.isAny] at h ⊢
+
+theorem unify_gi : ∀ (a b c : Ty), Ty.unify a b = some c → gi a = true → gi b = true → gi c = true
+  | a, b, c, h, ga, gb => by
+    unfold Ty.unify at h
+    split at h
+    · rename_i hany
+      simp [gi_not_any a ga, gi_not_any b gb] at hany
+    · split at h
+      · cases h; exact gb
+      · split at h
+        · cases h; exact ga
+        · split at h
+          · cases h; exact ga
+          · rename_i hnany hnnv1 hnnv2 hnbeq
+            split at h
+            · rename_i k1 n1 a1 k2 n2 a2
+              split at h
+              · cases h
+              · rename_i hcond
+                simp at hcond
+                obtain ⟨⟨hk, hn⟩, hl⟩ := hcond
+                split at h
+                · rename_i args hargs
+                  cases h
+                  subst hn
+                  cases a1 with
+                  | nil =>
+                    cases a2 with
+                    | nil =>
+                      simp [Ty.unifyArgs] at hargs
+                      subst hargs
+                      exact ga
+                    | cons y ys => simp at hl
+                  | cons x xs =>
+                    cases xs with
+                    | nil =>
+                      cases a2 with
+                      | nil => simp at hl
+                      | cons y ys =>
+                        cases ys with
+                        | nil =>
+                          simp [Ty.unifyArgs] at hargs
+                          split at hargs
+                          · cases hargs
+                          · rename_i z hz
+                            cases hargs
+                            simp [gi] at ga gb ⊢
+                            exact ⟨ga.1, unify_gi x y z hz ga.2 gb.2⟩
+                        | cons y2 ys => simp at hl
+                    | cons x2 xs => simp [gi] at ga
+                · cases h
+            · cases h
+termination_by a b _ _ _ _ => sizeOf a + sizeOf b
+decreasing_by all_goals (simp_wf; subst_vars; simp; omega)
+
+theorem gi_noValue : gi Ty.noValue = true := by simp [Ty.noValue, gi, goodName0]
+
+theorem unifyAllFrom_gi : ∀ (ts : List Ty) (acc c : Ty) (idx : Nat),
+    Ty.unifyAllFrom acc idx ts = .ok c → gi acc = true → (∀ t ∈ ts, gi t = true) → gi c = true
+  | [], acc, c, idx, h, ga, hts => by simp [Ty.unifyAllFrom] at h; subst h; exact ga
+  | t :: ts, acc, c, idx, h, ga, hts => by
+    simp [Ty.unifyAllFrom] at h
+    split at h
+    · cases h
+    · rename_i u hu
+      exact unifyAllFrom_gi ts u c (idx + 1) h (unify_gi acc t u hu ga (hts t (by simp)))
+        (fun t' ht' => hts t' (by simp [ht']))
+
+theorem hasTy_unify (v : Val) (a b c : Ty) (h : Ty.unify a b = some c) (ga : gi a = true) (gb : gi b = true) :
+    (hasTy v a = true → hasTy v c = true) ∧ (hasTy v b = true → hasTy v c = true) := by
+  have up := Ty.unify_upper a b c h
+  have gc := gi_good c (unify_gi a b c h ga gb)
+  exact ⟨fun hv => hasTy_sub v a c hv up.1 gc, fun hv => hasTy_sub v b c hv up.2 gc⟩
+
+theorem hasTy_unifyAllFrom (v : Val) : ∀ (ts : List Ty) (acc c : Ty) (idx : Nat),
+    Ty.unifyAllFrom acc idx ts = .ok c → gi acc = true → (∀ t ∈ ts, gi t = true) →
+    (hasTy v acc = true → hasTy v c = true) ∧ (∀ t ∈ ts, hasTy v t = true → hasTy v c = true)
+  | [], acc, c, idx, h, ga, hts => by simp [Ty.unifyAllFrom] at h; subst h; simp
+  | t :: ts, acc, c, idx, h, ga, hts => by
+    simp [Ty.unifyAllFrom] at h
+    split at h
+    · cases h
+    · rename_i u hu
+      have gt := hts t (by simp)
+      have gu := unify_gi acc t u hu ga gt
+      have st := hasTy_unify v acc t u hu ga gt
+      have ih := hasTy_unifyAllFrom v ts u c (idx + 1) h gu (fun t' ht' => hts t' (by simp [ht']))
+      refine ⟨fun hv => ih.1 (st.1 hv), ?_⟩
+      intro t' ht' hv
+      simp at ht'
+      rcases ht' with rfl | ht'
+      · exact ih.1 (st.2 hv)
+      · exact ih.2 t' ht' hv
+
+-- ------------------------------------------------------------------ well-typed checker environments
+
+def GoodEnv (Γ : Blocks Ty) : Prop := ∀ b ∈ Γ, ∀ p ∈ b, gi p.2 = true
+
+theorem lookupBlock_gi : ∀ (b : List (String × Ty)) (x : String) (T : Ty),
+    (∀ p ∈ b, gi p.2 = true) → lookupBlock b x = some T → gi T = true
+  | [], x, T, h, hl => by simp [lookupBlock] at hl
+  | (k, T0) :: rest, x, T, h, hl => by
+    simp only [lookupBlock] at hl
+    split at hl
+    · simp at hl; subst hl; exact h (k, T0) (by simp)
+    · exact lookupBlock_gi rest x T (fun p hp => h p (by simp [hp])) hl
+
+theorem lookupB_gi : ∀ (Γ : Blocks Ty) (x : String) (T : Ty), GoodEnv Γ → lookupB Γ x = some T → gi T = true
+  | [], x, T, h, hl => by simp [lookupB] at hl
+  | b :: rest, x, T, h, hl => by
+    simp only [lookupB] at hl
+    split at hl
+    · rename_i v hv
+      cases hl
+      exact lookupBlock_gi b x T (h b (by simp)) hv
+    · exact lookupB_gi rest x T (fun b' hb' => h b' (by simp [hb'])) hl
+
+theorem setBlock_gi : ∀ (b : List (String × Ty)) (x : String) (T : Ty),
+    (∀ p ∈ b, gi p.2 = true) → gi T = true → ∀ p ∈ setBlock b x T, gi p.2 = true
+  | [], x, T, h, hT => by simp [setBlock, hT]
+  | (k, T0) :: rest, x, T, h, hT => by
+    simp only [setBlock]
+    split
+    · intro p hp
+      simp at hp
+      rcases hp with rfl | hp
+      · exact hT
+      · exact h p (by simp [hp])
+    · intro p hp
+      simp at hp
+      rcases hp with rfl | hp
+      · exact h (k, T0) (by simp)
+      · exact setBlock_gi rest x T (fun p hp => h p (by simp [hp])) hT p hp
+
+theorem GoodEnv_setB (Γ : Blocks Ty) (x : String) (T : Ty) (h : GoodEnv Γ) (hT : gi T = true) :
+    GoodEnv (setB Γ x T) := by
+  cases Γ with
+  | nil => simp [setB]; exact h
+  | cons b rest =>
+    simp only [setB]
+    intro b' hb'
+    simp at hb'
+    rcases hb' with rfl | hb'
+    · exact setBlock_gi b x T (h b (by simp)) hT
+    · exact h b' (by simp [hb'])
+
+theorem GoodEnv_push (Γ : Blocks Ty) (h : GoodEnv Γ) : GoodEnv ([] :: Γ) := by
+  intro b hb
+  simp at hb
+  rcases hb with rfl | hb
+  · simp
+  · exact h b hb
+
+theorem GoodEnv_tail (Γ : Blocks Ty) (h : GoodEnv Γ) : GoodEnv Γ.tail := by
+  intro b hb
+  exact h b (List.mem_of_mem_tail hb)
+
+
+-- ================================================================== (part 2)
+
+
+theorem triple_exists {α β γ : Type} (X : α × β × γ) : ∃ a b c, X = (a, b, c) := ⟨_, _, _, rfl⟩
+syntax "destruct3 " ident " : " term " with " ident ident ident " at " ident : tactic
+macro_rules
+  | `(tactic| destruct3 $h:ident : $t:term with $a:ident $b:ident $c:ident at $htc:ident) =>
+    `(tactic| (obtain ⟨$a:ident, $b:ident, $c:ident, $h:ident⟩ := triple_exists $t; rw [$h:ident] at $htc:ident; simp only at $htc:ident))
+
+/-- Iterables of `for` whose type is inferred and then compared with `List<Any>` (a variable, a
+call, a parenthesised expression): for list literals / `if` / `match` in that position the checker
+computes lossy types (known findings C16/any-from-checked-if, C16/error-from-checked-list). -/
+def iterOK : TExpr → Bool
+  | .var _ | .call _ _ | .paren _ => true
+  | _ => false
+
+mutual
+/-- The fragment of `check_sound_fragment`, indexed by a bound on the nesting depth (so that all
+proofs are inductions on a natural number). `let` only as a block statement. -/
+def okE (P : Program) : Nat → TExpr → Bool
+  | 0, _ => false
+  | d + 1, e =>
+    match e with
+    | .int _ | .str _ | .retUnit | .brk | .cont => true
+    | .var x => (isValueGlobal x && (findFun P x).isNone) || !(isGlobalName P x)
+    | .paren e | .ret e | .assign _ e | .update _ _ e => okE P d e
+    | .binop _ l r => okE P d l && okE P d r
+    | .letE _ _ _ => false
+    | .ifE c thn _ els => okE P d c && okL P d thn && okL P d els
+    | .whileE c body => okE P d c && okL P d body
+    | .forE _ e body => iterOK e && okE P d e && okL P d body
+    | .matchE s cases => okE P d s && okC P d cases
+    | .list items | .tuple items | .call _ items => okA P d items
+def okL (P : Program) : Nat → List TExpr → Bool
+  | 0, _ => false
+  | _ + 1, [] => true
+  | d + 1, e :: rest =>
+    (match e with
+     | .letE _ _ e' => okE P d e'
+     | _ => okE P d e) && okL P d rest
+def okA (P : Program) : Nat → List TExpr → Bool
+  | 0, _ => false
+  | _ + 1, [] => true
+  | d + 1, e :: rest => okE P d e && okA P d rest
+def okC (P : Program) : Nat → List Case → Bool
+  | 0, _ => false
+  | _ + 1, [] => true
+  | d + 1, .mk v payload body :: rest => (v != "_" || payload.isNone) && okL P d body && okC P d rest
+end
+
+/-- A block statement: a `let`, or an expression of the fragment. -/
+def okS (P : Program) (d : Nat) (e : TExpr) : Bool :=
+  match e with
+  | .letE _ _ e' => okE P d e'
+  | _ => okE P d e
+
+theorem inferVar_env (P : Program) (Γ Γ' : Blocks Ty) (x : String) (T : Ty)
+    (h : inferVar P Γ x = (T, Γ', [])) : Γ' = Γ := by
+  unfold inferVar at h
+  split at h
+  · simp at h; exact h.2.symm
+  · split at h
+    · simp at h; exact h.2.symm
+    · simp at h
+
+theorem varForAssign_env (P : Program) (Γ Γ' : Blocks Ty) (x : String) (T : Ty)
+    (h : varForAssign P Γ x = (T, Γ', [])) : Γ' = Γ ∧ lookupB Γ x = some T := by
+  unfold varForAssign at h
+  split at h
+  · rename_i T0 hl; simp at h; exact ⟨h.2.symm, by rw [hl, h.1]⟩
+  · split at h <;> simp at h
+
+theorem callTy_env (P : Program) (Γ Γ' : Blocks Ty) (f : String) (tys : List Ty) (T : Ty)
+    (h : callTy P Γ f tys = (T, Γ', [])) : Γ' = Γ := by
+  unfold callTy at h
+  repeat' split at h
+  all_goals (simp at h)
+  all_goals (first | exact h.2.1.symm | exact h.2.symm | skip)
+
+
+-- ================================================================== (part 3)
+
+
+theorem setB_cons {α : Type} (g : List (String × α)) (G : Blocks α) (x : String) (v : α) :
+    setB (g :: G) x v = setBlock g x v :: G := rfl
+
+/-- Checking an expression of the fragment leaves the bindings unchanged (when no diagnostic is
+produced); checking a block only changes its own innermost scope. -/
+theorem tc_inv (P : Program) : ∀ d,
+    (∀ e ret exp Γ T Γ', okE P d e = true → tcExpr P ret exp Γ e = (T, Γ', []) → Γ' = Γ) ∧
+    (∀ es ret exp g G T Γ', okL P d es = true → tcSeq P ret exp (g :: G) es = (T, Γ', []) →
+      ∃ g', Γ' = g' :: G) ∧
+    (∀ es ret exp Γ Ts Γ', okA P d es = true → tcItems P ret exp Γ es = (Ts, Γ', []) → Γ' = Γ) ∧
+    (∀ cs ret mode Ts0 Γ Ts Γ', okC P d cs = true → tcCases P ret mode Ts0 Γ cs = (Ts, Γ', []) → Γ' = Γ) := by
+  intro d
+  induction d with
+  | zero => simp [okE, okL, okA, okC]
+  | succ d ih =>
+    obtain ⟨ihE, ihL, ihA, ihC⟩ := ih
+    -- a block: entering pushes a scope, the result's tail is the outer bindings
+    have blk : ∀ es ret exp Γ T Γ', okL P d es = true → tcSeq P ret exp ([] :: Γ) es = (T, Γ', []) →
+        Γ'.tail = Γ := by
+      intro es ret exp Γ T Γ' hs h
+      obtain ⟨g', hg⟩ := ihL es ret exp [] Γ T Γ' hs h
+      simp [hg]
+    refine ⟨?_, ?_, ?_, ?_⟩
+    · intro e ret exp Γ T Γ' hs h
+      cases e with
+      | int v => simp only [tcExpr] at h; exact (fin_inv _ _ _ _ _ _ h).2.1
+      | str v => simp only [tcExpr] at h; exact (fin_inv _ _ _ _ _ _ h).2.1
+      | retUnit => simp only [tcExpr] at h; exact (fin_inv _ _ _ _ _ _ h).2.1
+      | brk => simp only [tcExpr] at h; exact (fin_inv _ _ _ _ _ _ h).2.1
+      | cont => simp only [tcExpr] at h; exact (fin_inv _ _ _ _ _ _ h).2.1
+      | letE x hint e => simp [okE] at hs
+      | var x =>
+        simp only [tcExpr] at h
+        destruct3 h1 : inferVar P Γ x with T1 Γ1 d1 at h
+        obtain ⟨_, hΓ, hd, _⟩ := fin_inv _ _ _ _ _ _ h
+        subst hd
+        rw [hΓ]; exact inferVar_env P Γ Γ1 x T1 h1
+      | paren e =>
+        simp only [okE] at hs
+        simp only [tcExpr] at h
+        destruct3 h1 : tcExpr P ret none Γ e with T1 Γ1 d1 at h
+        obtain ⟨_, hΓ, hd, _⟩ := fin_inv _ _ _ _ _ _ h
+        subst hd
+        rw [hΓ]; exact ihE e ret none Γ T1 Γ1 hs h1
+      | ret e =>
+        simp only [okE] at hs
+        simp only [tcExpr] at h
+        destruct3 h1 : tcExpr P ret (some ret) Γ e with T1 Γ1 d1 at h
+        obtain ⟨_, hΓ, hd, _⟩ := fin_inv _ _ _ _ _ _ h
+        subst hd
+        rw [hΓ]; exact ihE e ret _ Γ T1 Γ1 hs h1
+      | binop op l r =>
+        simp only [okE] at hs
+        simp at hs
+        simp only [tcExpr] at h
+        split at h
+        · destruct3 h1 : tcExpr P ret none Γ l with T1 Γ1 d1 at h
+          destruct3 h2 : tcExpr P ret none Γ1 r with T2 Γ2 d2 at h
+          obtain ⟨T3, d3, h3⟩ : ∃ a b, intBinopTy op T1 T2 = (a, b) := ⟨_, _, rfl⟩
+          rw [h3] at h
+          simp only at h
+          obtain ⟨_, hΓ, hd, _⟩ := fin_inv _ _ _ _ _ _ h
+          simp at hd
+          obtain ⟨hd1, hd2, hd3⟩ := hd
+          subst hd1; subst hd2
+          rw [hΓ, ihE r ret none Γ1 T2 Γ2 hs.2 h2, ihE l ret none Γ T1 Γ1 hs.1 h1]
+        · split at h
+          · destruct3 h1 : tcExpr P ret none Γ l with T1 Γ1 d1 at h
+            destruct3 h2 : tcExpr P ret none Γ1 r with T2 Γ2 d2 at h
+            obtain ⟨_, hΓ, hd, _⟩ := fin_inv _ _ _ _ _ _ h
+            simp at hd
+            obtain ⟨hd1, hd2⟩ := hd
+            subst hd1; subst hd2
+            rw [hΓ, ihE r ret none Γ1 T2 Γ2 hs.2 h2, ihE l ret none Γ T1 Γ1 hs.1 h1]
+          · obtain ⟨opnd, res, ho⟩ : ∃ a b, (if (op == BinOp.and || op == BinOp.or) = true then (tBool, tBool)
+                else if (op == BinOp.concat) = true then (tStr, tStr) else (tInt, tBool)) = (a, b) := ⟨_, _, rfl⟩
+            rw [ho] at h
+            simp only at h
+            destruct3 h1 : tcExpr P ret (some opnd) Γ l with T1 Γ1 d1 at h
+            destruct3 h2 : tcExpr P ret (some opnd) Γ1 r with T2 Γ2 d2 at h
+            obtain ⟨_, hΓ, hd, _⟩ := fin_inv _ _ _ _ _ _ h
+            simp at hd
+            obtain ⟨hd1, hd2⟩ := hd
+            subst hd1; subst hd2
+            rw [hΓ, ihE r ret _ Γ1 T2 Γ2 hs.2 h2, ihE l ret _ Γ T1 Γ1 hs.1 h1]
+      | assign x e =>
+        simp only [okE] at hs
+        simp only [tcExpr] at h
+        destruct3 h1 : varForAssign P Γ x with T1 Γ1 d1 at h
+        destruct3 h2 : tcExpr P ret (some T1) Γ1 e with T2 Γ2 d2 at h
+        obtain ⟨_, hΓ, hd, _⟩ := fin_inv _ _ _ _ _ _ h
+        simp at hd
+        obtain ⟨hd1, hd2⟩ := hd
+        subst hd1; subst hd2
+        rw [hΓ, ihE e ret _ Γ1 T2 Γ2 hs h2, (varForAssign_env P Γ Γ1 x T1 h1).1]
+      | update isAdd x e =>
+        simp only [okE] at hs
+        simp only [tcExpr] at h
+        destruct3 h1 : varForAssign P Γ x with T1 Γ1 d1 at h
+        destruct3 h2 : tcExpr P ret (some tInt) Γ1 e with T2 Γ2 d2 at h
+        obtain ⟨_, hΓ, hd, _⟩ := fin_inv _ _ _ _ _ _ h
+        simp at hd
+        obtain ⟨hd1, _, hd2⟩ := hd
+        subst hd1; subst hd2
+        rw [hΓ, ihE e ret _ Γ1 T2 Γ2 hs h2, (varForAssign_env P Γ Γ1 x T1 h1).1]
+      | ifE c thn hasElse els =>
+        simp only [okE] at hs
+        simp at hs
+        obtain ⟨⟨hsc, hst⟩, hse⟩ := hs
+        simp only [tcExpr] at h
+        destruct3 h1 : tcExpr P ret (some tBool) Γ c with T1 Γ1 d1 at h
+        have e1 := ihE c ret (some tBool) Γ T1 Γ1 hsc
+        split at h
+        · split at h
+          · destruct3 h2 : tcSeq P ret none ([] :: Γ1) thn with T2 Γ2 d2 at h
+            destruct3 h3 : tcSeq P ret none ([] :: Γ2.tail) els with T3 Γ3 d3 at h
+            split at h
+            · simp at h
+              obtain ⟨_, hΓ, hd1, hd2, hd3⟩ := h
+              subst hd1; subst hd2; subst hd3
+              rw [← hΓ, blk els ret none Γ2.tail T3 Γ3 hse h3, blk thn ret none Γ1 T2 Γ2 hst h2, e1 h1]
+            · simp at h
+          · rename_i E
+            destruct3 h2 : tcSeq P ret (some E) ([] :: Γ1) thn with T2 Γ2 d2 at h
+            destruct3 h3 : tcSeq P ret (some E) ([] :: Γ2.tail) els with T3 Γ3 d3 at h
+            obtain ⟨_, hΓ, hd, _⟩ := fin_inv _ _ _ _ _ _ h
+            simp at hd
+            obtain ⟨hd1, hd2, hd3⟩ := hd
+            subst hd1; subst hd2; subst hd3
+            rw [hΓ, blk els ret _ Γ2.tail T3 Γ3 hse h3, blk thn ret _ Γ1 T2 Γ2 hst h2, e1 h1]
+        · destruct3 h2 : tcSeq P ret none ([] :: Γ1) thn with T2 Γ2 d2 at h
+          obtain ⟨_, hΓ, hd, _⟩ := fin_inv _ _ _ _ _ _ h
+          simp at hd
+          obtain ⟨hd1, hd2⟩ := hd
+          subst hd1; subst hd2
+          rw [hΓ, blk thn ret none Γ1 T2 Γ2 hst h2, e1 h1]
+      | whileE c body =>
+        simp only [okE] at hs
+        simp at hs
+        simp only [tcExpr] at h
+        destruct3 h1 : tcExpr P ret (some tBool) Γ c with T1 Γ1 d1 at h
+        destruct3 h2 : tcSeq P ret none ([] :: Γ1) body with T2 Γ2 d2 at h
+        obtain ⟨_, hΓ, hd, _⟩ := fin_inv _ _ _ _ _ _ h
+        simp at hd
+        obtain ⟨hd1, hd2⟩ := hd
+        subst hd1; subst hd2
+        rw [hΓ, blk body ret none Γ1 T2 Γ2 hs.2 h2, ihE c ret _ Γ T1 Γ1 hs.1 h1]
+      | forE x e body =>
+        simp only [okE] at hs
+        simp at hs
+        simp only [tcExpr] at h
+        destruct3 h1 : tcExpr P ret (some (tList .any)) Γ e with T1 Γ1 d1 at h
+        destruct3 h2 : tcSeq P ret none ([] :: setB ([] :: Γ1) x (forElemTy T1)) body with T2 Γ2 d2 at h
+        obtain ⟨_, hΓ, hd, _⟩ := fin_inv _ _ _ _ _ _ h
+        simp at hd
+        obtain ⟨hd1, hd2⟩ := hd
+        subst hd1; subst hd2
+        have e1 := ihE e ret _ Γ T1 Γ1 hs.1.2 h1
+        rw [hΓ, blk body ret none _ T2 Γ2 hs.2 h2, setB_cons]
+        simp [e1]
+      | matchE s cases =>
+        simp only [okE] at hs
+        simp at hs
+        simp only [tcExpr] at h
+        destruct3 h1 : tcExpr P ret none Γ s with T1 Γ1 d1 at h
+        destruct3 h2 : tcCases P ret (matchMode exp) T1 Γ1 cases with Ts Γ2 d2 at h
+        have fin' : ∀ X dd, fin exp X Γ2 dd = (T, Γ', []) → Γ' = Γ2 ∧ dd = [] := by
+          intro X dd hh
+          have := fin_inv _ _ _ _ _ _ hh
+          exact ⟨this.2.1, this.2.2.1⟩
+        have key : Γ' = Γ2 ∧ d1 = [] ∧ d2 = [] := by
+          repeat' split at h
+          all_goals
+            (have := fin' _ _ h; simp at this <;> simp [this])
+        obtain ⟨hΓ, hd1, hd2⟩ := key
+        subst hd1; subst hd2
+        rw [hΓ, ihC cases ret _ T1 Γ1 Ts Γ2 hs.2 h2, ihE s ret none Γ T1 Γ1 hs.1 h1]
+      | list items =>
+        simp only [okE] at hs
+        simp only [tcExpr] at h
+        split at h
+        · rename_i a ha
+          destruct3 h1 : tcItems P ret (some a) Γ items with Ts Γ1 d1 at h
+          obtain ⟨_, hΓ, hd, _⟩ := fin_inv _ _ _ _ _ _ h
+          subst hd
+          rw [hΓ]; exact ihA items ret _ Γ Ts Γ1 hs h1
+        · destruct3 h1 : tcItems P ret none Γ items with Ts Γ1 d1 at h
+          split at h
+          · obtain ⟨_, hΓ, hd, _⟩ := fin_inv _ _ _ _ _ _ h
+            subst hd
+            rw [hΓ]; exact ihA items ret _ Γ Ts Γ1 hs h1
+          · obtain ⟨_, hΓ, hd, _⟩ := fin_inv _ _ _ _ _ _ h
+            simp at hd
+      | tuple items =>
+        simp only [okE] at hs
+        simp only [tcExpr] at h
+        destruct3 h1 : tcItems P ret none Γ items with Ts Γ1 d1 at h
+        obtain ⟨_, hΓ, hd, _⟩ := fin_inv _ _ _ _ _ _ h
+        subst hd
+        rw [hΓ]; exact ihA items ret _ Γ Ts Γ1 hs h1
+      | call f args =>
+        simp only [okE] at hs
+        simp only [tcExpr] at h
+        destruct3 h1 : tcItems P ret none Γ args with Ts Γ1 d1 at h
+        destruct3 h2 : callTy P Γ1 f Ts with T2 Γ2 d2 at h
+        obtain ⟨_, hΓ, hd, _⟩ := fin_inv _ _ _ _ _ _ h
+        simp at hd
+        obtain ⟨hd1, hd2⟩ := hd
+        subst hd1; subst hd2
+        rw [hΓ, callTy_env P Γ1 Γ2 f Ts T2 h2]; exact ihA args ret _ Γ Ts Γ1 hs h1
+    · -- blocks
+      intro es ret exp g G T Γ' hs h
+      have stmt : ∀ e exp T Γ', (match e with | .letE _ _ e' => okE P d e' | _ => okE P d e) = true →
+          tcExpr P ret exp (g :: G) e = (T, Γ', []) → ∃ g', Γ' = g' :: G := by
+        intro e exp T Γ' hs h
+        cases e with
+        | letE x hint e' =>
+          simp only at hs
+          simp only [tcExpr] at h
+          cases hint with
+          | some hh =>
+            simp only at h
+            destruct3 h1 : tcExpr P ret (some hh.toTy) (g :: G) e' with T1 Γ1 d1 at h
+            obtain ⟨_, hΓ, hd, _⟩ := fin_inv _ _ _ _ _ _ h
+            subst hd
+            rw [hΓ, ihE e' ret _ (g :: G) T1 Γ1 hs h1, setB_cons]
+            exact ⟨_, rfl⟩
+          | none =>
+            simp only at h
+            destruct3 h1 : tcExpr P ret none (g :: G) e' with T1 Γ1 d1 at h
+            obtain ⟨_, hΓ, hd, _⟩ := fin_inv _ _ _ _ _ _ h
+            subst hd
+            rw [hΓ, ihE e' ret _ (g :: G) T1 Γ1 hs h1, setB_cons]
+            exact ⟨_, rfl⟩
+        | _ =>
+          simp only at hs
+          exact ⟨g, ihE _ ret exp (g :: G) T Γ' hs h⟩
+      cases es with
+      | nil =>
+        simp only [tcSeq] at h
+        simp at h
+        exact ⟨g, h.2.1.symm⟩
+      | cons e rest =>
+        simp only [okL] at hs
+        simp at hs
+        cases rest with
+        | nil =>
+          simp only [tcSeq] at h
+          exact stmt e exp T Γ' hs.1 h
+        | cons e2 rest =>
+          simp only [tcSeq] at h
+          destruct3 h1 : tcExpr P ret none (g :: G) e with T1 Γ1 d1 at h
+          destruct3 h2 : tcSeq P ret exp Γ1 (e2 :: rest) with T2 Γ2 d2 at h
+          simp only [Prod.mk.injEq] at h
+          obtain ⟨_, hΓ, hd⟩ := h
+          obtain ⟨hd1, hd2⟩ := List.append_eq_nil_iff.mp hd
+          subst hd1; subst hd2
+          obtain ⟨g1, hg1⟩ := stmt e none T1 Γ1 hs.1 h1
+          subst hg1
+          rw [← hΓ]
+          exact ihL (e2 :: rest) ret exp g1 G T2 Γ2 hs.2 h2
+    · intro es ret exp Γ Ts Γ' hs h
+      cases es with
+      | nil => simp [tcItems] at h; exact h.2.symm
+      | cons e rest =>
+        simp only [okA] at hs
+        simp at hs
+        simp only [tcItems] at h
+        destruct3 h1 : tcExpr P ret exp Γ e with T1 Γ1 d1 at h
+        destruct3 h2 : tcItems P ret exp Γ1 rest with T2 Γ2 d2 at h
+        simp at h
+        obtain ⟨_, hΓ, hd1, hd2⟩ := h
+        subst hd1; subst hd2
+        rw [← hΓ, ihA rest ret exp Γ1 T2 Γ2 hs.2 h2, ihE e ret exp Γ T1 Γ1 hs.1 h1]
+    · intro cs ret mode Ts0 Γ Ts Γ' hs h
+      cases cs with
+      | nil => simp [tcCases] at h; exact h.2.symm
+      | cons c rest =>
+        cases c with
+        | mk v payload body =>
+        simp only [okC] at hs
+        simp at hs
+        cases payload with
+        | none =>
+          simp only [tcCases] at h
+          destruct3 h1 : tcSeq P ret mode ([] :: [] :: Γ) body with T1 Γ1 d1 at h
+          destruct3 h2 : tcCases P ret mode Ts0 Γ1.tail.tail rest with T2 Γ2 d2 at h
+          simp only [Prod.mk.injEq] at h
+          obtain ⟨_, hΓ, hd⟩ := h
+          obtain ⟨hd12, hd2⟩ := List.append_eq_nil_iff.mp hd
+          obtain ⟨hd1, _⟩ := List.append_eq_nil_iff.mp hd12
+          subst hd1; subst hd2
+          have t1 := blk body ret mode ([] :: Γ) T1 Γ1 hs.1.2 h1
+          rw [← hΓ, ihC rest ret mode Ts0 _ T2 Γ2 hs.2 h2, t1]
+          simp
+        | some x =>
+          simp only [tcCases] at h
+          destruct3 h1 : tcSeq P ret mode ([] :: setB ([] :: Γ) x (payloadTy Ts0 v)) body with T1 Γ1 d1 at h
+          destruct3 h2 : tcCases P ret mode Ts0 Γ1.tail.tail rest with T2 Γ2 d2 at h
+          simp only [Prod.mk.injEq] at h
+          obtain ⟨_, hΓ, hd⟩ := h
+          obtain ⟨hd12, hd2⟩ := List.append_eq_nil_iff.mp hd
+          obtain ⟨hd1, _⟩ := List.append_eq_nil_iff.mp hd12
+          subst hd1; subst hd2
+          have t1 := blk body ret mode _ T1 Γ1 hs.1.2 h1
+          rw [← hΓ, ihC rest ret mode Ts0 _ T2 Γ2 hs.2 h2, t1, setB_cons]
+          simp
+
+
+-- ================================================================== (part 4)
+
+
+theorem gi_tInt : gi tInt = true := by simp [gi, tInt, goodName0]
+theorem gi_tStr : gi tStr = true := by simp [gi, tStr, goodName0]
+theorem gi_tBool : gi tBool = true := by simp [gi, tBool, goodName0]
+theorem gi_tUnit : gi tUnit = true := by simp [gi, tUnit, goodName0]
+
+theorem fin_none (T T' : Ty) (Γ Γ' : Blocks Ty) (d : List Diag) (h : fin none T Γ d = (T', Γ', [])) :
+    T' = T ∧ Γ' = Γ ∧ d = [] := by
+  have := fin_inv _ _ _ _ _ _ h
+  exact ⟨this.1, this.2.1, this.2.2.1⟩
+
+theorem findFun_mem (P : Program) (f : String) (d : FunDef) (h : findFun P f = some d) : d ∈ P.funs := by
+  unfold findFun at h
+  exact List.mem_of_find?_eq_some h
+
+theorem globalOf_fn (P : Program) (f : String) (ps : List Ty) (r : Ty) (h : globalOf P f = some (.fn ps r)) :
+    ∃ d, findFun P f = some d ∧ ps = paramTys d ∧ r = d.ret.toTy := by
+  unfold globalOf at h
+  split at h
+  · rename_i d hd
+    simp at h
+    exact ⟨d, hd, h.1.symm, h.2.symm⟩
+  · repeat' split at h
+    all_goals simp at h
+
+theorem giL_of_forall : ∀ ts : List Ty, (∀ t ∈ ts, gi t = true) → giL ts = true
+  | [], h => by simp [giL]
+  | t :: ts, h => by simp [giL, h t (by simp), giL_of_forall ts (fun t' ht' => h t' (by simp [ht']))]
+
+theorem callTy_gi (P : Program) (Γ Γ' : Blocks Ty) (f : String) (tys : List Ty) (T : Ty)
+    (h : callTy P Γ f tys = (T, Γ', [])) (hΓ : GoodEnv Γ) (ht : ∀ t ∈ tys, gi t = true) : gi T = true := by
+  unfold callTy at h
+  split at h
+  · rename_i T0 hl
+    have g0 := lookupB_gi Γ f T0 hΓ hl
+    split at h
+    · simp [gi] at g0
+    · simp [gi] at g0
+    · split at h
+      · simp at h; rw [← h.1]; exact gi_noValue
+      · simp at h
+  · split at h
+    · simp at h
+    · rename_i ps r hg
+      obtain ⟨d, _, _, hr⟩ := globalOf_fn P f ps r hg
+      split at h
+      · simp at h; rw [← h.1, hr]; exact Hint.toTy_gi _
+      · simp at h
+    · split at h
+      · simp at h; rw [← h.1]; exact gi_tUnit
+      · simp at h
+    · split at h
+      · simp at h; rw [← h.1]; exact gi_tStr
+      · simp at h
+    · split at h
+      · rename_i a
+        simp at h
+        rw [← h.1]
+        simp [tOption, gi]
+        exact ht a (by simp)
+      · simp at h
+      · simp at h
+    · split at h
+      · simp at h; rw [← h.1]; exact gi_noValue
+      · simp at h
+
+theorem inferVar_gi (P : Program) (Γ Γ' : Blocks Ty) (x : String) (T : Ty)
+    (hs : ((isValueGlobal x && (findFun P x).isNone) || !(isGlobalName P x)) = true)
+    (h : inferVar P Γ x = (T, Γ', [])) (hΓ : GoodEnv Γ) : gi T = true := by
+  unfold inferVar at h
+  split at h
+  · rename_i T0 hl
+    simp at h
+    rw [← h.1]
+    exact lookupB_gi Γ x T0 hΓ hl
+  · simp at hs
+    rcases hs with ⟨hvg, hff⟩ | hng
+    · simp [isValueGlobal] at hvg
+      rcases hvg with ((rfl | rfl) | rfl) | rfl
+      all_goals
+        simp [globalOf, hff, Global.ty] at h
+        rw [← h.1]
+        simp [gi, tOption, tBool, tUnit, Ty.noValue, goodName0]
+    · simp [isGlobalName, reservedNames] at hng
+      simp [globalOf, hng] at h
+
+theorem payloadTy_gi (P : Program) (Ts : Ty) (v : String) (hg : gi Ts = true) (hnt : Ts.isTuple = false)
+    (hv : v ≠ "_") (hp : patternDiags P (tyName Ts) v true = []) : gi (payloadTy Ts v) = true := by
+  unfold payloadTy
+  split
+  · exact gi_noValue
+  · rename_i hnv
+    cases Ts <;> simp [gi, Ty.isTuple] at hg hnt
+    rename_i k n args
+    simp [Ty.isNoValue] at hnv
+    unfold patternDiags at hp
+    simp [hv, tyName] at hp
+    split at hp
+    · simp at hp
+    · simp at hp
+    · rename_i en ctor hvo
+      simp [hnv] at hp
+      obtain ⟨hc, hen⟩ := hp
+      subst hc
+      subst hen
+      unfold variantOf at hvo
+      split at hvo
+      · simp at hvo
+      · repeat' split at hvo
+        all_goals simp at hvo
+        all_goals subst hvo
+        all_goals
+          (cases args with
+           | nil => simp [gi, goodName0] at hg
+           | cons a rest =>
+             cases rest with
+             | nil => simp [gi] at hg <;> (rename_i hsome; simp at hsome; subst hsome; simp [enumVariants, hg])
+             | cons b rest => simp [gi] at hg)
+
+
+-- ================================================================== (part 5)
+
+
+theorem unifyAll_gi (ts : List Ty) (c : Ty) (h : Ty.unifyAll ts = .ok c) (hts : ∀ t ∈ ts, gi t = true) :
+    gi c = true := unifyAllFrom_gi ts Ty.noValue c 0 h gi_noValue hts
+
+/-- A block statement keeps the checker's environment well-typed. -/
+theorem stmt_goodenv (P : Program) (d : Nat)
+    (GE : ∀ e ret Γ T Γ', okE P d e = true → tcExpr P ret none Γ e = (T, Γ', []) → GoodEnv Γ → gi T = true)
+    (e : TExpr) (ret : Ty) (exp : Option Ty) (Γ Γ' : Blocks Ty) (T : Ty)
+    (hs : okS P d e = true) (h : tcExpr P ret exp Γ e = (T, Γ', [])) (hΓ : GoodEnv Γ) : GoodEnv Γ' := by
+  cases e with
+  | letE x hint e' =>
+    simp only [okS] at hs
+    simp only [tcExpr] at h
+    cases hint with
+    | some hh =>
+      simp only at h
+      destruct3 h1 : tcExpr P ret (some hh.toTy) Γ e' with T1 Γ1 d1 at h
+      obtain ⟨_, hΓ', hd, _⟩ := fin_inv _ _ _ _ _ _ h
+      subst hd
+      rw [hΓ', (tc_inv P d).1 e' ret _ Γ T1 Γ1 hs h1]
+      exact GoodEnv_setB Γ x _ hΓ (Hint.toTy_gi hh)
+    | none =>
+      simp only at h
+      destruct3 h1 : tcExpr P ret none Γ e' with T1 Γ1 d1 at h
+      obtain ⟨_, hΓ', hd, _⟩ := fin_inv _ _ _ _ _ _ h
+      subst hd
+      rw [hΓ', (tc_inv P d).1 e' ret _ Γ T1 Γ1 hs h1]
+      exact GoodEnv_setB Γ x _ hΓ (GE e' ret Γ T1 Γ1 hs h1 hΓ)
+  | _ =>
+    simp only [okS] at hs
+    rw [(tc_inv P d).1 _ ret exp Γ T Γ' hs h]
+    exact hΓ
+
+/-- The types the checker INFERS (no expected type) on the fragment are well-formed fragment types
+without `Any` / `Error`, provided no diagnostic was produced. -/
+theorem tc_gi (P : Program) : ∀ d,
+    (∀ e ret Γ T Γ', okE P d e = true → tcExpr P ret none Γ e = (T, Γ', []) → GoodEnv Γ → gi T = true) ∧
+    (∀ es ret Γ T Γ', okL P d es = true → tcSeq P ret none Γ es = (T, Γ', []) → GoodEnv Γ → gi T = true) ∧
+    (∀ es ret Γ Ts Γ', okA P d es = true → tcItems P ret none Γ es = (Ts, Γ', []) → GoodEnv Γ →
+      ∀ t ∈ Ts, gi t = true) ∧
+    (∀ cs ret Ts0 Γ Ts Γ', okC P d cs = true → tcCases P ret none Ts0 Γ cs = (Ts, Γ', []) → GoodEnv Γ →
+      gi Ts0 = true → Ts0.isTuple = false → ∀ t ∈ Ts, gi t = true) := by
+  intro d
+  induction d with
+  | zero => simp [okE, okL, okA, okC]
+  | succ d ih =>
+    obtain ⟨ihE, ihL, ihA, ihC⟩ := ih
+    have inv := tc_inv P d
+    have blkΓ : ∀ es ret exp Γ T Γ', okL P d es = true → tcSeq P ret exp ([] :: Γ) es = (T, Γ', []) →
+        Γ'.tail = Γ := by
+      intro es ret exp Γ T Γ' hs h
+      obtain ⟨g', hg⟩ := inv.2.1 es ret exp [] Γ T Γ' hs h
+      simp [hg]
+    refine ⟨?_, ?_, ?_, ?_⟩
+    · intro e ret Γ T Γ' hs h hΓ
+      cases e with
+      | int v => simp only [tcExpr] at h; rw [(fin_none _ _ _ _ _ h).1]; exact gi_tInt
+      | str v => simp only [tcExpr] at h; rw [(fin_none _ _ _ _ _ h).1]; exact gi_tStr
+      | retUnit => simp only [tcExpr] at h; rw [(fin_none _ _ _ _ _ h).1]; exact gi_noValue
+      | brk => simp only [tcExpr] at h; rw [(fin_none _ _ _ _ _ h).1]; exact gi_noValue
+      | cont => simp only [tcExpr] at h; rw [(fin_none _ _ _ _ _ h).1]; exact gi_noValue
+      | letE x hint e => simp [okE] at hs
+      | var x =>
+        simp only [okE] at hs
+        simp only [tcExpr] at h
+        destruct3 h1 : inferVar P Γ x with T1 Γ1 d1 at h
+        obtain ⟨hT, _, hd⟩ := fin_none _ _ _ _ _ h
+        subst hd
+        rw [hT]; exact inferVar_gi P Γ Γ1 x T1 hs h1 hΓ
+      | paren e =>
+        simp only [okE] at hs
+        simp only [tcExpr] at h
+        destruct3 h1 : tcExpr P ret none Γ e with T1 Γ1 d1 at h
+        obtain ⟨hT, _, hd⟩ := fin_none _ _ _ _ _ h
+        subst hd
+        rw [hT]; exact ihE e ret Γ T1 Γ1 hs h1 hΓ
+      | ret e =>
+        simp only [tcExpr] at h
+        destruct3 h1 : tcExpr P ret (some ret) Γ e with T1 Γ1 d1 at h
+        rw [(fin_none _ _ _ _ _ h).1]; exact gi_noValue
+      | binop op l r =>
+        simp only [tcExpr] at h
+        split at h
+        · destruct3 h1 : tcExpr P ret none Γ l with T1 Γ1 d1 at h
+          destruct3 h2 : tcExpr P ret none Γ1 r with T2 Γ2 d2 at h
+          obtain ⟨T3, d3, h3⟩ : ∃ a b, intBinopTy op T1 T2 = (a, b) := ⟨_, _, rfl⟩
+          rw [h3] at h
+          simp only at h
+          obtain ⟨hT, _, hd⟩ := fin_none _ _ _ _ _ h
+          simp at hd
+          obtain ⟨_, _, hd3⟩ := hd
+          subst hd3
+          unfold intBinopTy at h3
+          split at h3
+          · simp at h3
+          split at h3
+          · simp at h3
+          simp at h3
+          rw [hT, ← h3.1]; exact gi_tInt
+        · split at h
+          · destruct3 h1 : tcExpr P ret none Γ l with T1 Γ1 d1 at h
+            destruct3 h2 : tcExpr P ret none Γ1 r with T2 Γ2 d2 at h
+            rw [(fin_none _ _ _ _ _ h).1]; exact gi_tBool
+          · obtain ⟨opnd, res, ho⟩ : ∃ a b, (if (op == BinOp.and || op == BinOp.or) = true then (tBool, tBool)
+                else if (op == BinOp.concat) = true then (tStr, tStr) else (tInt, tBool)) = (a, b) := ⟨_, _, rfl⟩
+            rw [ho] at h
+            simp only at h
+            destruct3 h1 : tcExpr P ret (some opnd) Γ l with T1 Γ1 d1 at h
+            destruct3 h2 : tcExpr P ret (some opnd) Γ1 r with T2 Γ2 d2 at h
+            rw [(fin_none _ _ _ _ _ h).1]
+            split at ho
+            · simp at ho; rw [← ho.2]; exact gi_tBool
+            · split at ho
+              · simp at ho; rw [← ho.2]; exact gi_tStr
+              · simp at ho; rw [← ho.2]; exact gi_tBool
+      | assign x e =>
+        simp only [tcExpr] at h
+        destruct3 h1 : varForAssign P Γ x with T1 Γ1 d1 at h
+        destruct3 h2 : tcExpr P ret (some T1) Γ1 e with T2 Γ2 d2 at h
+        rw [(fin_none _ _ _ _ _ h).1]; exact gi_tUnit
+      | update isAdd x e =>
+        simp only [tcExpr] at h
+        destruct3 h1 : varForAssign P Γ x with T1 Γ1 d1 at h
+        destruct3 h2 : tcExpr P ret (some tInt) Γ1 e with T2 Γ2 d2 at h
+        rw [(fin_none _ _ _ _ _ h).1]; exact gi_tUnit
+      | whileE c body =>
+        simp only [tcExpr] at h
+        destruct3 h1 : tcExpr P ret (some tBool) Γ c with T1 Γ1 d1 at h
+        destruct3 h2 : tcSeq P ret none ([] :: Γ1) body with T2 Γ2 d2 at h
+        rw [(fin_none _ _ _ _ _ h).1]; exact gi_tUnit
+      | forE x e body =>
+        simp only [tcExpr] at h
+        destruct3 h1 : tcExpr P ret (some (tList .any)) Γ e with T1 Γ1 d1 at h
+        destruct3 h2 : tcSeq P ret none ([] :: setB ([] :: Γ1) x (forElemTy T1)) body with T2 Γ2 d2 at h
+        rw [(fin_none _ _ _ _ _ h).1]; exact gi_tUnit
+      | ifE c thn hasElse els =>
+        simp only [okE] at hs
+        simp at hs
+        obtain ⟨⟨hsc, hst⟩, hse⟩ := hs
+        simp only [tcExpr] at h
+        destruct3 h1 : tcExpr P ret (some tBool) Γ c with T1 Γ1 d1 at h
+        split at h
+        · destruct3 h2 : tcSeq P ret none ([] :: Γ1) thn with T2 Γ2 d2 at h
+          destruct3 h3 : tcSeq P ret none ([] :: Γ2.tail) els with T3 Γ3 d3 at h
+          split at h
+          · rename_i U hU
+            simp at h
+            obtain ⟨hT, _, hd1, hd2, hd3⟩ := h
+            subst hd1; subst hd2; subst hd3
+            have e1 := inv.1 c ret _ Γ T1 Γ1 hsc h1
+            rw [e1] at h2
+            have e2 := blkΓ thn ret none Γ T2 Γ2 hst h2
+            rw [e2] at h3
+            rw [← hT]
+            exact unify_gi T2 T3 U hU (ihL thn ret _ T2 Γ2 hst h2 (GoodEnv_push _ hΓ))
+              (ihL els ret _ T3 Γ3 hse h3 (GoodEnv_push _ hΓ))
+          · simp at h
+        · destruct3 h2 : tcSeq P ret none ([] :: Γ1) thn with T2 Γ2 d2 at h
+          rw [(fin_none _ _ _ _ _ h).1]; exact gi_tUnit
+      | matchE s cases =>
+        simp only [okE] at hs
+        simp at hs
+        simp only [tcExpr] at h
+        destruct3 h1 : tcExpr P ret none Γ s with T1 Γ1 d1 at h
+        destruct3 h2 : tcCases P ret (matchMode none) T1 Γ1 cases with Ts Γ2 d2 at h
+        simp only [matchMode] at h h2
+        split at h
+        · rename_i U hU
+          obtain ⟨hT, _, hd⟩ := fin_none _ _ _ _ _ h
+          simp at hd
+          obtain ⟨hd1, hdne, hdx, hd2⟩ := hd
+          subst hd1; subst hd2
+          have e1 := inv.1 s ret _ Γ T1 Γ1 hs.1 h1
+          rw [e1] at h2
+          have g1 := ihE s ret Γ T1 Γ1 hs.1 h1 hΓ
+          have hnt : T1.isTuple = false := by
+            cases T1 <;> simp [Ty.isTuple, scrutIsEnum] at hdne ⊢
+          rw [hT]
+          exact unifyAll_gi Ts U hU (ihC cases ret T1 Γ Ts Γ2 hs.2 h2 hΓ g1 hnt)
+        · have := fin_none _ _ _ _ _ h
+          simp at this
+      | list items =>
+        simp only [okE] at hs
+        simp only [tcExpr, listExpected] at h
+        destruct3 h1 : tcItems P ret none Γ items with Ts Γ1 d1 at h
+        split at h
+        · rename_i U hU
+          obtain ⟨hT, _, hd⟩ := fin_none _ _ _ _ _ h
+          subst hd
+          rw [hT]
+          simp [tList, gi]
+          exact unifyAll_gi Ts U hU (ihA items ret Γ Ts Γ1 hs h1 hΓ)
+        · have := fin_none _ _ _ _ _ h
+          simp at this
+      | tuple items =>
+        simp only [okE] at hs
+        simp only [tcExpr] at h
+        destruct3 h1 : tcItems P ret none Γ items with Ts Γ1 d1 at h
+        obtain ⟨hT, _, hd⟩ := fin_none _ _ _ _ _ h
+        subst hd
+        rw [hT]
+        simp [gi]
+        exact giL_of_forall Ts (ihA items ret Γ Ts Γ1 hs h1 hΓ)
+      | call f args =>
+        simp only [okE] at hs
+        simp only [tcExpr] at h
+        destruct3 h1 : tcItems P ret none Γ args with Ts Γ1 d1 at h
+        destruct3 h2 : callTy P Γ1 f Ts with T2 Γ2 d2 at h
+        obtain ⟨hT, _, hd⟩ := fin_none _ _ _ _ _ h
+        simp at hd
+        obtain ⟨hd1, hd2⟩ := hd
+        subst hd1; subst hd2
+        have e1 := inv.2.2.1 args ret _ Γ Ts Γ1 hs h1
+        rw [e1] at h2
+        rw [hT]
+        exact callTy_gi P Γ Γ2 f Ts T2 h2 hΓ (ihA args ret Γ Ts Γ1 hs h1 hΓ)
+    · intro es ret Γ T Γ' hs h hΓ
+      cases es with
+      | nil =>
+        simp only [tcSeq] at h
+        simp at h
+        rw [← h.1]; exact gi_tUnit
+      | cons e rest =>
+        simp only [okL] at hs
+        simp at hs
+        have hs1 : okS P d e = true := by
+          unfold okS; exact hs.1
+        cases rest with
+        | nil =>
+          simp only [tcSeq] at h
+          cases e with
+          | letE x hint e' =>
+            simp only [tcExpr] at h
+            cases hint with
+            | some hh =>
+              simp only at h
+              destruct3 h1 : tcExpr P ret (some hh.toTy) Γ e' with T1 Γ1 d1 at h
+              rw [(fin_none _ _ _ _ _ h).1]; exact gi_tUnit
+            | none =>
+              simp only at h
+              destruct3 h1 : tcExpr P ret none Γ e' with T1 Γ1 d1 at h
+              rw [(fin_none _ _ _ _ _ h).1]; exact gi_tUnit
+          | _ =>
+            simp only at hs
+            exact ihE _ ret Γ T Γ' hs.1 h hΓ
+        | cons e2 rest =>
+          simp only [tcSeq] at h
+          destruct3 h1 : tcExpr P ret none Γ e with T1 Γ1 d1 at h
+          destruct3 h2 : tcSeq P ret none Γ1 (e2 :: rest) with T2 Γ2 d2 at h
+          simp only [Prod.mk.injEq] at h
+          obtain ⟨hT, _, hd⟩ := h
+          obtain ⟨hd1, hd2⟩ := List.append_eq_nil_iff.mp hd
+          subst hd1; subst hd2
+          rw [← hT]
+          exact ihL (e2 :: rest) ret Γ1 T2 Γ2 hs.2 h2 (stmt_goodenv P d ihE e ret none Γ Γ1 T1 hs1 h1 hΓ)
+    · intro es ret Γ Ts Γ' hs h hΓ
+      cases es with
+      | nil => simp [tcItems] at h; obtain ⟨hT, _⟩ := h; subst hT; simp
+      | cons e rest =>
+        simp only [okA] at hs
+        simp at hs
+        simp only [tcItems] at h
+        destruct3 h1 : tcExpr P ret none Γ e with T1 Γ1 d1 at h
+        destruct3 h2 : tcItems P ret none Γ1 rest with T2 Γ2 d2 at h
+        simp only [Prod.mk.injEq] at h
+        obtain ⟨hT, _, hd⟩ := h
+        obtain ⟨hd1, hd2⟩ := List.append_eq_nil_iff.mp hd
+        subst hd1; subst hd2
+        have e1 := inv.1 e ret _ Γ T1 Γ1 hs.1 h1
+        rw [e1] at h2
+        intro t ht
+        rw [← hT] at ht
+        simp at ht
+        rcases ht with rfl | ht
+        · exact ihE e ret Γ t Γ1 hs.1 h1 hΓ
+        · exact ihA rest ret Γ T2 Γ2 hs.2 h2 hΓ t ht
+    · intro cs ret Ts0 Γ Ts Γ' hs h hΓ hg hnt
+      cases cs with
+      | nil => simp [tcCases] at h; obtain ⟨hT, _⟩ := h; subst hT; simp
+      | cons c rest =>
+        cases c with
+        | mk v payload body =>
+        simp only [okC] at hs
+        simp at hs
+        obtain ⟨⟨hvp, hsb⟩, hsr⟩ := hs
+        cases payload with
+        | none =>
+          simp only [tcCases] at h
+          destruct3 h1 : tcSeq P ret none ([] :: [] :: Γ) body with T1 Γ1 d1 at h
+          destruct3 h2 : tcCases P ret none Ts0 Γ1.tail.tail rest with T2 Γ2 d2 at h
+          simp only [Prod.mk.injEq] at h
+          obtain ⟨hT, _, hd⟩ := h
+          obtain ⟨hd12, hd2⟩ := List.append_eq_nil_iff.mp hd
+          obtain ⟨hd1, _⟩ := List.append_eq_nil_iff.mp hd12
+          subst hd1; subst hd2
+          have t1 := blkΓ body ret none ([] :: Γ) T1 Γ1 hsb h1
+          rw [t1] at h2
+          simp at h2
+          intro t ht
+          rw [← hT] at ht
+          simp at ht
+          rcases ht with rfl | ht
+          · exact ihL body ret _ t Γ1 hsb h1 (GoodEnv_push _ (GoodEnv_push _ hΓ))
+          · exact ihC rest ret Ts0 Γ T2 Γ2 hsr h2 hΓ hg hnt t ht
+        | some x =>
+          simp only [tcCases] at h
+          destruct3 h1 : tcSeq P ret none ([] :: setB ([] :: Γ) x (payloadTy Ts0 v)) body with T1 Γ1 d1 at h
+          destruct3 h2 : tcCases P ret none Ts0 Γ1.tail.tail rest with T2 Γ2 d2 at h
+          simp only [Prod.mk.injEq] at h
+          obtain ⟨hT, _, hd⟩ := h
+          obtain ⟨hd12, hd2⟩ := List.append_eq_nil_iff.mp hd
+          obtain ⟨hd1, hdp⟩ := List.append_eq_nil_iff.mp hd12
+          subst hd1; subst hd2
+          have t1 := blkΓ body ret none _ T1 Γ1 hsb h1
+          rw [t1, setB_cons] at h2
+          simp at h2
+          simp at hvp
+          simp at hdp
+          have gp := payloadTy_gi P Ts0 v hg hnt hvp hdp
+          intro t ht
+          rw [← hT] at ht
+          simp at ht
+          rcases ht with rfl | ht
+          · exact ihL body ret _ t Γ1 hsb h1
+              (GoodEnv_push _ (GoodEnv_setB _ x _ (GoodEnv_push _ hΓ) gp))
+          · exact ihC rest ret Ts0 Γ T2 Γ2 hsr h2 hΓ hg hnt t ht
+
+
+-- ================================================================== (part 6)
+
+
+def resTy (exp : Option Ty) (T : Ty) : Ty :=
+  match exp with
+  | none => T
+  | some E => E
+
+/-- Outcomes allowed for an expression of static type `T` checked in `Γ` (bindings `Γ'`
+afterwards), inside a function with return type `ret`; `il` = inside a loop. -/
+def R (ret T : Ty) (Γ Γ' : Blocks Ty) (il : Bool) : Res → Prop
+  | .val v ρ' => hasTy v T = true ∧ envOK Γ' ρ'
+  | .ret v => hasTy v ret = true
+  | .brk ρ' => il = true ∧ ∃ Γb, envOK Γb ρ' ∧ Γb.tail = Γ.tail
+  | .cont ρ' => il = true ∧ ∃ Γb, envOK Γb ρ' ∧ Γb.tail = Γ.tail
+  | .err e => e.isTypeError = false
+  | .timeout => True
+
+def RI (ret : Ty) (exp : Option Ty) (Ts : List Ty) (Γ : Blocks Ty) (il : Bool) : ItemsRes → Prop
+  | .vals vs ρ' => (match exp with
+      | none => hasTyZip vs Ts = true
+      | some a => hasTyAll vs a = true) ∧ envOK Γ ρ'
+  | .ret v => hasTy v ret = true
+  | .brk ρ' => il = true ∧ ∃ Γb, envOK Γb ρ' ∧ Γb.tail = Γ.tail
+  | .cont ρ' => il = true ∧ ∃ Γb, envOK Γb ρ' ∧ Γb.tail = Γ.tail
+  | .err e => e.isTypeError = false
+  | .timeout => True
+
+theorem R_fin (ret T0 T : Ty) (Γ Γ1 Γ' : Blocks Ty) (il : Bool) (r : Res) (exp : Option Ty) (d : List Diag)
+    (h : R ret T0 Γ Γ1 il r) (hf : fin exp T0 Γ1 d = (T, Γ', []))
+    (hexp : ∀ E, exp = some E → good E = true) : R ret (resTy exp T) Γ Γ' il r := by
+  obtain ⟨hT, hΓ, _, hsub⟩ := fin_inv _ _ _ _ _ _ hf
+  subst hT; subst hΓ
+  cases r <;> simp [R] at h ⊢ <;> try exact h
+  case val v ρ =>
+    refine ⟨?_, h.2⟩
+    cases exp with
+    | none => exact h.1
+    | some E => exact hasTy_sub v T E h.1 (hsub E rfl) (hexp E rfl)
+
+/-- Transfer of the non-value outcomes. -/
+theorem R_pass (ret T T2 : Ty) (Γ Γ0 Γ1 Γ2 : Blocks Ty) (il : Bool) (r : Res)
+    (h : R ret T Γ0 Γ1 il r) (hΓ : Γ0.tail = Γ.tail) (hv : ∀ v ρ, r ≠ .val v ρ) : R ret T2 Γ Γ2 il r := by
+  cases r <;> simp [R] at h ⊢
+  case val v ρ => exact absurd rfl (hv v ρ)
+  case brk ρ => exact ⟨h.1, by obtain ⟨Γb, h1, h2⟩ := h.2; exact ⟨Γb, h1, h2.trans hΓ⟩⟩
+  case cont ρ => exact ⟨h.1, by obtain ⟨Γb, h1, h2⟩ := h.2; exact ⟨Γb, h1, h2.trans hΓ⟩⟩
+  all_goals exact h
+
+theorem RI_pass (ret T2 : Ty) (exp : Option Ty) (Ts : List Ty) (Γ Γ2 : Blocks Ty) (il : Bool) (r : ItemsRes)
+    (h : RI ret exp Ts Γ il r) (hv : ∀ vs ρ, r ≠ .vals vs ρ) :
+    R ret T2 Γ Γ2 il (match r with
+      | .vals vs ρ1 => .timeout
+      | .ret v => .ret v | .brk ρ1 => .brk ρ1 | .cont ρ1 => .cont ρ1 | .err er => .err er | .timeout => .timeout) := by
+  cases r <;> simp [RI, R] at h ⊢
+  all_goals exact h
+
+/-- Leaving a block: the scope pushed on entry is popped. -/
+theorem R_leave (ret T : Ty) (Γ Γ2 : Blocks Ty) (il keep : Bool) (r : Res)
+    (h : R ret T ([] :: Γ) Γ2 il r) (hΓ : Γ2.tail = Γ) :
+    R ret (if keep then T else tUnit) Γ Γ il (leaveBlock keep r) := by
+  cases r <;> simp [R, leaveBlock] at h ⊢
+  case val v ρ =>
+    refine ⟨?_, by rw [← hΓ]; exact envOK_tail _ _ h.2⟩
+    cases keep <;> simp [h.1, hasTy, isNamed, tUnit]
+  case brk ρ =>
+    obtain ⟨h0, Γb, h1, h2⟩ := h
+    exact ⟨h0, Γ, by rw [← h2]; exact envOK_tail _ _ h1, rfl⟩
+  case cont ρ =>
+    obtain ⟨h0, Γb, h1, h2⟩ := h
+    exact ⟨h0, Γ, by rw [← h2]; exact envOK_tail _ _ h1, rfl⟩
+  all_goals exact h
+
+theorem hasTyAll_of_zip (U : Ty) : ∀ (vs : List Val) (Ts : List Ty), hasTyZip vs Ts = true →
+    (∀ t ∈ Ts, ∀ v, hasTy v t = true → hasTy v U = true) → hasTyAll vs U = true
+  | [], Ts, h, hU => by simp [hasTyAll]
+  | v :: vs, Ts, h, hU => by
+    cases Ts with
+    | nil => simp [hasTyZip] at h
+    | cons t Ts =>
+      simp [hasTyZip] at h
+      simp [hasTyAll, hU t (by simp) v h.1]
+      exact hasTyAll_of_zip U vs Ts h.2 (fun t' ht' => hU t' (by simp [ht']))
+
+theorem hasTyZip_length : ∀ (vs : List Val) (Ts : List Ty), hasTyZip vs Ts = true → vs.length = Ts.length
+  | [], Ts, h => by cases Ts <;> simp [hasTyZip] at h ⊢
+  | v :: vs, Ts, h => by
+    cases Ts with
+    | nil => simp [hasTyZip] at h
+    | cons t Ts => simp [hasTyZip] at h; simp [hasTyZip_length vs Ts h.2]
+
+/-- The argument tests of `infer_call` give values of the parameter types. -/
+theorem args_sub : ∀ (ps : List Ty) (vs : List Val) (tys : List Ty), hasTyZip vs tys = true →
+    ps.length = tys.length → goodL ps = true →
+    (List.zip ps tys).filterMap (fun pa => if Ty.sub pa.2 pa.1 then none else some Diag.mismatch) = [] →
+    hasTyZip vs ps = true
+  | [], vs, tys, hz, hl, hg, hd => by
+    cases tys <;> simp at hl
+    cases vs <;> simp [hasTyZip] at hz ⊢
+  | p :: ps, vs, tys, hz, hl, hg, hd => by
+    cases tys with
+    | nil => simp at hl
+    | cons t tys =>
+      cases vs with
+      | nil => simp [hasTyZip] at hz
+      | cons v vs =>
+        simp [hasTyZip] at hz
+        simp [goodL] at hg
+        rw [List.zip_cons_cons, List.filterMap_cons] at hd
+        by_cases hs : Ty.sub t p = true
+        · simp only [hs, if_true] at hd
+          simp [hasTyZip]
+          exact ⟨hasTy_sub v t p hz.1 hs hg.1, args_sub ps vs tys hz.2 (by simpa using hl) hg.2 hd⟩
+        · simp [hs] at hd
+
+theorem paramsOk_of : ∀ (ps : List (String × Hint)) (vs : List Val),
+    hasTyZip vs (ps.map (fun p => p.2.toTy)) = true → paramsOk ps vs = true
+  | [], vs, h => by simp [paramsOk]
+  | p :: ps, vs, h => by
+    cases vs with
+    | nil => simp [hasTyZip] at h
+    | cons v vs =>
+      simp [hasTyZip] at h
+      simp [paramsOk, hasTy_sub_typeOf v _ h.1, paramsOk_of ps vs h.2]
+
+theorem bind_ok : ∀ (ps : List (String × Hint)) (vs : List Val) (accT : List (String × Ty))
+    (accV : List (String × Val)), hasTyZip vs (ps.map (fun p => p.2.toTy)) = true → blockOK accT accV →
+    blockOK (ps.foldl (fun b p => setBlock b p.1 p.2.toTy) accT) (bindParams ps vs accV)
+  | [], vs, accT, accV, h, hb => by
+    cases vs <;> simp [hasTyZip] at h
+    simp [bindParams, hb]
+  | p :: ps, vs, accT, accV, h, hb => by
+    cases vs with
+    | nil => simp [hasTyZip] at h
+    | cons v vs =>
+      simp [hasTyZip] at h
+      simp only [List.foldl_cons, bindParams]
+      exact bind_ok ps vs _ _ h.2 (setBlock_ok accT accV p.1 p.2.toTy v hb h.1)
+
+theorem foldl_setBlock_gi : ∀ (ps : List (String × Hint)) (acc : List (String × Ty)),
+    (∀ q ∈ acc, gi q.2 = true) →
+    ∀ q ∈ ps.foldl (fun b p => setBlock b p.1 p.2.toTy) acc, gi q.2 = true
+  | [], acc, h => by simpa using h
+  | p :: ps, acc, h => by
+    simp only [List.foldl_cons]
+    exact foldl_setBlock_gi ps _ (setBlock_gi acc p.1 p.2.toTy h (Hint.toTy_gi _))
+
+theorem paramTys_goodL : ∀ ps : List (String × Hint), goodL (ps.map (fun p => p.2.toTy)) = true
+  | [] => by simp [goodL]
+  | p :: ps => by simp [goodL, Hint.toTy_good, paramTys_goodL ps]
+
+mutual
+/-- `check_loops` (`break` / `continue` outside a loop) PLUS a marker diagnostic for the forms the
+soundness proof does not cover yet (`+=`/`-=`, `while`, `for`, `match`): `s1Diags il e = []` says
+that `e` passes `check_loops` and lies in the proved sub-fragment. -/
+def s1Diags (inLoop : Bool) : TExpr → List Diag
+  | .int _ | .str _ | .var _ | .retUnit => []
+  | .brk | .cont => if inLoop then [] else [.loopOutside]
+  | .paren e | .letE _ _ e | .assign _ e | .ret e => s1Diags inLoop e
+  | .binop _ l r => s1Diags inLoop l ++ s1Diags inLoop r
+  | .ifE c thn _ els => s1Diags inLoop c ++ s1DiagsL inLoop thn ++ s1DiagsL inLoop els
+  | .update _ _ _ | .whileE _ _ | .forE _ _ _ | .matchE _ _ => [.loopOutside]
+  | .list items | .tuple items | .call _ items => s1DiagsL inLoop items
+def s1DiagsL (inLoop : Bool) : List TExpr → List Diag
+  | [] => []
+  | e :: rest => s1Diags inLoop e ++ s1DiagsL inLoop rest
+end
+
+/-- What `check P = []` gives for every function, plus membership in the fragment. -/
+def ProgOK (P : Program) (D : Nat) : Prop :=
+  ∀ f ∈ P.funs, okL P D f.body = true ∧
+    (tcSeq P f.ret.toTy (some f.ret.toTy) ([] :: [paramBlock f, []]) f.body).2.2 = [] ∧
+    s1DiagsL false f.body = []
+
+
+-- ================================================================== (part 7)
+
+
+theorem R_mono (ret T T' : Ty) (Γ Γ' : Blocks Ty) (il : Bool) (r : Res)
+    (h : R ret T Γ Γ' il r) (hT : ∀ v, hasTy v T = true → hasTy v T' = true) : R ret T' Γ Γ' il r := by
+  cases r <;> simp [R] at h ⊢ <;> first | exact ⟨hT _ h.1, h.2⟩ | exact h
+
+theorem hop_arith (op : BinOp) (h : isIntArith op = true) (lv rv : Val)
+    (h1 : hasTy lv tInt = true) (h2 : hasTy rv tInt = true) :
+    (∀ v, binopVal op lv rv = .ok v → hasTy v tInt = true) ∧
+    (∀ e, binopVal op lv rv = .error e → e.isTypeError = false) := by
+  obtain ⟨a, rfl⟩ := canon_int lv h1
+  obtain ⟨b, rfl⟩ := canon_int rv h2
+  have hbv : binopVal op (.int a) (.int b) = intBinop op a b := by
+    cases op <;> simp [isIntArith] at h <;> simp [binopVal]
+  rw [hbv]
+  constructor
+  · intro v hv
+    have := intBinop_ok_val op (Or.inl h) a b v hv
+    simpa [h] using this
+  · intro e he
+    exact intBinop_ok_err op (Or.inl h) a b e he
+
+theorem binop_R (P : Program) (n : Nat) (ρ : Blocks Val) (l r : TExpr) (op : BinOp)
+    (ret opnd res : Ty) (Γ : Blocks Ty) (il : Bool)
+    (ihl : R ret opnd Γ Γ il (eval P n ρ l))
+    (ihr : ∀ ρ1, envOK Γ ρ1 → R ret opnd Γ Γ il (eval P n ρ1 r))
+    (hop : ∀ lv rv, hasTy lv opnd = true → hasTy rv opnd = true →
+      (∀ v, binopVal op lv rv = .ok v → hasTy v res = true) ∧
+      (∀ e, binopVal op lv rv = .error e → e.isTypeError = false)) :
+    R ret res Γ Γ il (eval P (n + 1) ρ (.binop op l r)) := by
+  simp only [eval]
+  cases hl : eval P n ρ l with
+  | val lv ρ1 =>
+    rw [hl] at ihl
+    simp [R] at ihl
+    have ihr' := ihr ρ1 ihl.2
+    simp only []
+    cases hr : eval P n ρ1 r with
+    | val rv ρ2 =>
+      rw [hr] at ihr'
+      simp [R] at ihr'
+      have h := hop lv rv ihl.1 ihr'.1
+      cases hb : binopVal op lv rv with
+      | ok v => simp only [hb]; simp [R, ihr'.2, h.1 v hb]
+      | error er => simp only [hb]; simp [R, h.2 er hb]
+    | _ => rw [hr] at ihr'; simp [R] at ihr' ⊢; try exact ihr'
+  | _ => rw [hl] at ihl; simp [R] at ihl ⊢; try exact ihl
+
+theorem good_tInt : good tInt = true := gi_good _ gi_tInt
+theorem good_tBool : good tBool = true := gi_good _ gi_tBool
+theorem good_tStr : good tStr = true := gi_good _ gi_tStr
+
+theorem s1DiagsL_cons (il : Bool) (e : TExpr) (rest : List TExpr) :
+    s1DiagsL il (e :: rest) = [] ↔ s1Diags il e = [] ∧ s1DiagsL il rest = [] := by
+  simp [s1DiagsL]
+
+
+-- ================================================================== (part 8)
+
+
+theorem okS_of_okE (P : Program) (d : Nat) (e : TExpr) (h : okE P d e = true) : okS P d e = true := by
+  cases e <;> simp only [okS] <;> first | exact h | skip
+  cases d <;> simp [okE] at h
+
+/-- Soundness of M8 w.r.t. the typed reference semantics on the fragment `okE` (see Props/C16). -/
+theorem assignBlock_ok : ∀ (g : List (String × Ty)) (r : List (String × Val)) (x : String) (T : Ty) (v : Val),
+    blockOK g r → lookupBlock g x = some T → hasTy v T = true → blockOK g (setBlock r x v)
+  | [], [], x, T, v, h, hl, hv => by simp [lookupBlock] at hl
+  | [], _ :: _, x, T, v, h, hl, hv => by simp [blockOK] at h
+  | _ :: _, [], x, T, v, h, hl, hv => by simp [blockOK] at h
+  | (k, T0) :: g, (k', v0) :: r, x, T, v, h, hl, hv => by
+    simp [blockOK] at h
+    obtain ⟨hk, hv0, hr⟩ := h
+    subst hk
+    simp only [lookupBlock] at hl
+    simp only [setBlock]
+    by_cases hx : (k == x) = true
+    · simp [hx] at hl
+      subst hl
+      simp [hx, blockOK, hv, hr]
+    · simp [hx] at hl
+      simp [hx, blockOK, hv0]
+      exact assignBlock_ok g r x T v hr hl hv
+
+theorem assignB_ok : ∀ (G : Blocks Ty) (R : Blocks Val) (x : String) (T : Ty) (v : Val),
+    envOK G R → lookupB G x = some T → hasTy v T = true → envOK G (assignB R x v)
+  | [], [], x, T, v, h, hl, hv => by simp [lookupB] at hl
+  | [], _ :: _, x, T, v, h, hl, hv => by simp [envOK] at h
+  | _ :: _, [], x, T, v, h, hl, hv => by simp [envOK] at h
+  | g :: G, r :: R, x, T, v, h, hl, hv => by
+    simp [envOK] at h
+    have hb := lookupBlock_ok g r x h.1
+    simp only [lookupB] at hl
+    simp only [assignB]
+    cases hg : lookupBlock g x with
+    | some T0 =>
+      rw [hg] at hl
+      simp at hl
+      subst hl
+      obtain ⟨w, hw, _⟩ := hb.1 T0 hg
+      simp [hw, envOK, h.2]
+      exact assignBlock_ok g r x T0 v h.1 hg hv
+    | none =>
+      rw [hg] at hl
+      simp at hl
+      simp [hb.2 hg, envOK, h.1]
+      exact assignB_ok G R x T v h.2 hl hv
+
+theorem stmt_tail (P : Program) (d : Nat) (e : TExpr) (ret : Ty) (exp : Option Ty) (Γ Γ' : Blocks Ty) (T : Ty)
+    (hs : okS P d e = true) (h : tcExpr P ret exp Γ e = (T, Γ', [])) : Γ'.tail = Γ.tail := by
+  cases e with
+  | letE x hint e' =>
+    simp only [okS] at hs
+    simp only [tcExpr] at h
+    cases hint with
+    | some hh =>
+      simp only at h
+      destruct3 h1 : tcExpr P ret (some hh.toTy) Γ e' with T1 Γ1 d1 at h
+      obtain ⟨_, hΓ', hd, _⟩ := fin_inv _ _ _ _ _ _ h
+      subst hd
+      rw [hΓ', (tc_inv P d).1 e' ret _ Γ T1 Γ1 hs h1]
+      cases Γ <;> simp [setB]
+    | none =>
+      simp only at h
+      destruct3 h1 : tcExpr P ret none Γ e' with T1 Γ1 d1 at h
+      obtain ⟨_, hΓ', hd, _⟩ := fin_inv _ _ _ _ _ _ h
+      subst hd
+      rw [hΓ', (tc_inv P d).1 e' ret _ Γ T1 Γ1 hs h1]
+      cases Γ <;> simp [setB]
+  | _ =>
+    simp only [okS] at hs
+    rw [(tc_inv P d).1 _ ret exp Γ T Γ' hs h]
+
+theorem R_reΓ (ret T : Ty) (Γ Γ1 Γ' : Blocks Ty) (il : Bool) (r : Res)
+    (h : R ret T Γ1 Γ' il r) (hΓ : Γ1.tail = Γ.tail) : R ret T Γ Γ' il r := by
+  cases r <;> simp [R] at h ⊢
+  case brk ρ => exact ⟨h.1, by obtain ⟨Γb, h1, h2⟩ := h.2; exact ⟨Γb, h1, h2.trans hΓ⟩⟩
+  case cont ρ => exact ⟨h.1, by obtain ⟨Γb, h1, h2⟩ := h.2; exact ⟨Γb, h1, h2.trans hΓ⟩⟩
+  all_goals exact h
+
+theorem listExpected_some (exp : Option Ty) (a : Ty) (h : listExpected exp = some a) :
+    exp = some (.user .struct "List" [a]) := by
+  unfold listExpected at h
+  split at h
+  · rename_i n a'
+    split at h
+    · rename_i hn
+      simp at h hn
+      subst h; subst hn; rfl
+    · simp at h
+  · simp at h
+
+theorem good_list_arg (k : Kind) (a : Ty) (h : good (.user k "List" [a]) = true) : good a = true := by
+  simp [good] at h; exact h
+
+theorem callTy_bound (P : Program) (Γ Γ' : Blocks Ty) (f : String) (tys : List Ty) (T : Ty)
+    (h : callTy P Γ f tys = (T, Γ', [])) : ¬ (lookupB Γ f = none ∧ globalOf P f = none) := by
+  intro ⟨h1, h2⟩
+  unfold callTy at h
+  simp [h1, h2] at h
+
+theorem sound (P : Program) (D : Nat) (hP : ProgOK P D) : ∀ n,
+    (∀ d e ret exp Γ ρ T Γ' il, okS P d e = true → tcExpr P ret exp Γ e = (T, Γ', []) →
+      s1Diags il e = [] → (∀ E, exp = some E → good E = true) → good ret = true →
+      envOK Γ ρ → GoodEnv Γ → R ret (resTy exp T) Γ Γ' il (eval P n ρ e)) ∧
+    (∀ d es ret exp Γ ρ T Γ' il, okL P d es = true → tcSeq P ret exp Γ es = (T, Γ', []) →
+      s1DiagsL il es = [] → (∀ E, exp = some E → good E = true) → good ret = true →
+      envOK Γ ρ → GoodEnv Γ → R ret (resTy exp T) Γ Γ' il (evalSeq P n ρ es)) ∧
+    (∀ d es ret exp Γ ρ Ts Γ' il, okA P d es = true → tcItems P ret exp Γ es = (Ts, Γ', []) →
+      s1DiagsL il es = [] → (∀ E, exp = some E → good E = true) → good ret = true →
+      envOK Γ ρ → GoodEnv Γ → RI ret exp Ts Γ il (evalItems P n ρ es)) ∧
+    (∀ f vs ret Γ ρ tys T Γ' il, callTy P Γ f tys = (T, Γ', []) → hasTyZip vs tys = true →
+      envOK Γ ρ → R ret T Γ Γ il (callFn P n ρ f vs)) := by
+  intro n
+  induction n with
+  | zero =>
+    refine ⟨?_, ?_, ?_, ?_⟩
+    · intros; simp [eval, R]
+    · intros; simp [evalSeq, R]
+    · intros; simp [evalItems, RI]
+    · intros; simp [callFn, R]
+  | succ n ih =>
+    obtain ⟨ihE, ihL, ihA, ihF⟩ := ih
+    refine ⟨?_, ?_, ?_, ?_⟩
+    · intro d e ret exp Γ ρ T Γ' il hs htc hld hexp hret henv hG
+      have inv := tc_inv P d
+      have gis := tc_gi P d
+      cases e with
+      | int v =>
+        simp only [tcExpr] at htc
+        simp only [eval]
+        exact R_fin ret tInt T Γ Γ Γ' il _ exp [] (by simp [R, hasTy, isNamed, tInt, henv]) htc hexp
+      | str v =>
+        simp only [tcExpr] at htc
+        simp only [eval]
+        exact R_fin ret tStr T Γ Γ Γ' il _ exp [] (by simp [R, hasTy, isNamed, tStr, henv]) htc hexp
+      | retUnit =>
+        simp only [tcExpr] at htc
+        obtain ⟨_, _, h3, _⟩ := fin_inv _ _ _ _ _ _ htc
+        simp only [eval]
+        simp [R]
+        split at h3
+        · rename_i hsub
+          exact hasTy_sub .unit tUnit ret (by simp [hasTy, isNamed, tUnit]) hsub hret
+        · simp at h3
+      | brk =>
+        simp [s1Diags] at hld
+        simp only [eval]
+        simp [R, hld]
+        exact ⟨Γ, henv, rfl⟩
+      | cont =>
+        simp [s1Diags] at hld
+        simp only [eval]
+        simp [R, hld]
+        exact ⟨Γ, henv, rfl⟩
+      | var x =>
+        simp only [okS] at hs
+        cases d with
+        | zero => simp [okE] at hs
+        | succ d =>
+        simp only [okE] at hs
+        simp only [tcExpr] at htc
+        destruct3 h1 : inferVar P Γ x with T1 Γ1 d1 at htc
+        have hd := (fin_inv _ _ _ _ _ _ htc).2.2.1
+        subst hd
+        have e1 := inferVar_env P Γ Γ1 x T1 h1
+        have e1' := e1.symm
+        subst e1'
+        refine R_fin ret T1 T Γ Γ Γ' il _ exp [] ?_ htc hexp
+        have hl := lookupB_ok Γ ρ x henv
+        unfold inferVar at h1
+        cases hg : lookupB Γ x with
+        | some T0 =>
+          rw [hg] at h1
+          simp at h1
+          subst h1
+          obtain ⟨v, hv1, hv2⟩ := hl.1 T0 hg
+          simp [eval, hv1, R, hv2, henv]
+        | none =>
+          rw [hg] at h1
+          simp only at h1
+          have hρ := hl.2 hg
+          simp at hs
+          rcases hs with ⟨hvg, hff⟩ | hng
+          · simp [isValueGlobal] at hvg
+            rcases hvg with ((rfl | rfl) | rfl) | rfl
+            all_goals
+              simp [globalOf, hff, Global.ty] at h1
+              subst h1
+              simp [eval, hρ, globalVal, R, hasTy, isNamed, tOption, tBool, tUnit, henv]
+          · simp [isGlobalName, reservedNames] at hng
+            simp [globalOf, hng] at h1
+      | paren e =>
+        simp only [okS] at hs
+        cases d with
+        | zero => simp [okE] at hs
+        | succ d =>
+        simp only [okE] at hs
+        simp [s1Diags] at hld
+        simp only [tcExpr] at htc
+        destruct3 h1 : tcExpr P ret none Γ e with T1 Γ1 d1 at htc
+        have hd := (fin_inv _ _ _ _ _ _ htc).2.2.1
+        subst hd
+        simp only [eval]
+        exact R_fin ret T1 T Γ Γ1 Γ' il _ exp [] (ihE d e ret none Γ ρ T1 Γ1 il (okS_of_okE P d e hs) h1 hld (by simp) hret henv hG) htc hexp
+      | ret e =>
+        simp only [okS] at hs
+        cases d with
+        | zero => simp [okE] at hs
+        | succ d =>
+        simp only [okE] at hs
+        simp [s1Diags] at hld
+        simp only [tcExpr] at htc
+        destruct3 h1 : tcExpr P ret (some ret) Γ e with T1 Γ1 d1 at htc
+        obtain ⟨_, hΓ', hd, _⟩ := fin_inv _ _ _ _ _ _ htc
+        subst hd
+        have ih1 := ihE d e ret (some ret) Γ ρ T1 Γ1 il (okS_of_okE P d e hs) h1 hld
+          (by intro E hE; cases hE; exact hret) hret henv hG
+        simp only [eval]
+        cases hev : eval P n ρ e with
+        | val v ρ1 => rw [hev] at ih1; simp [R, resTy] at ih1 ⊢; exact ih1.1
+        | _ => rw [hev] at ih1; simp [R] at ih1 ⊢; try exact ih1
+      | letE x hint e' =>
+        simp only [okS] at hs
+        simp [s1Diags] at hld
+        simp only [tcExpr] at htc
+        cases hint with
+        | some hh =>
+          simp only at htc
+          destruct3 h1 : tcExpr P ret (some hh.toTy) Γ e' with T1 Γ1 d1 at htc
+          have hd := (fin_inv _ _ _ _ _ _ htc).2.2.1
+          subst hd
+          have e1 := ((tc_inv P d).1 e' ret _ Γ T1 Γ1 hs h1).symm
+          subst e1
+          have hg := Hint.toTy_good hh
+          have ih1 := ihE d e' ret (some hh.toTy) Γ ρ T1 Γ il (okS_of_okE P d e' hs) h1 hld
+            (by intro E hE; cases hE; exact hg) hret henv hG
+          refine R_fin ret tUnit T Γ _ Γ' il _ exp [] ?_ htc hexp
+          simp only [eval]
+          cases hev : eval P n ρ e' with
+          | val v ρ1 =>
+            rw [hev] at ih1
+            simp [R, resTy] at ih1
+            have hchk := hasTy_sub_typeOf v hh.toTy ih1.1
+            simp [hchk, R, hasTy, isNamed, tUnit]
+            exact setB_ok _ _ x _ v ih1.2 ih1.1
+          | _ => rw [hev] at ih1; simp [R] at ih1 ⊢; try exact ih1
+        | none =>
+          simp only at htc
+          destruct3 h1 : tcExpr P ret none Γ e' with T1 Γ1 d1 at htc
+          have hd := (fin_inv _ _ _ _ _ _ htc).2.2.1
+          subst hd
+          have e1 := ((tc_inv P d).1 e' ret _ Γ T1 Γ1 hs h1).symm
+          subst e1
+          have ih1 := ihE d e' ret none Γ ρ T1 Γ il (okS_of_okE P d e' hs) h1 hld (by simp) hret henv hG
+          refine R_fin ret tUnit T Γ _ Γ' il _ exp [] ?_ htc hexp
+          simp only [eval]
+          cases hev : eval P n ρ e' with
+          | val v ρ1 =>
+            rw [hev] at ih1
+            simp [R, resTy] at ih1
+            simp [R, hasTy, isNamed, tUnit]
+            exact setB_ok _ _ x _ v ih1.2 ih1.1
+          | _ => rw [hev] at ih1; simp [R] at ih1 ⊢; try exact ih1
+      | binop op l r =>
+        simp only [okS] at hs
+        cases d with
+        | zero => simp [okE] at hs
+        | succ d =>
+        simp only [okE] at hs
+        simp at hs
+        simp [s1Diags] at hld
+        have inv := tc_inv P d
+        simp only [tcExpr] at htc
+        split at htc
+        · rename_i hA
+          destruct3 h1 : tcExpr P ret none Γ l with T1 Γ1 d1 at htc
+          destruct3 h2 : tcExpr P ret none Γ1 r with T2 Γ2 d2 at htc
+          obtain ⟨T3, d3, h3⟩ : ∃ a b, intBinopTy op T1 T2 = (a, b) := ⟨_, _, rfl⟩
+          rw [h3] at htc
+          simp only at htc
+          have hd := (fin_inv _ _ _ _ _ _ htc).2.2.1
+          simp at hd
+          obtain ⟨hd1, hd2, hd3⟩ := hd
+          subst hd1; subst hd2; subst hd3
+          have e1 := (inv.1 l ret _ Γ T1 Γ1 hs.1 h1).symm
+          subst e1
+          have e2 := (inv.1 r ret _ Γ T2 Γ2 hs.2 h2).symm
+          subst e2
+          unfold intBinopTy at h3
+          split at h3
+          · simp at h3
+          split at h3
+          · simp at h3
+          simp at h3
+          obtain ⟨hT3, hsl, hsr⟩ := h3
+          subst hT3
+          refine R_fin ret tInt T Γ Γ Γ' il _ exp _ ?_ htc hexp
+          exact binop_R P n ρ l r op ret tInt tInt Γ il
+            (R_mono _ _ _ _ _ _ _ (ihE d l ret none Γ ρ T1 Γ il (okS_of_okE P d l hs.1) h1 hld.1 (by simp) hret henv hG)
+              (fun v hv => hasTy_sub v T1 tInt hv hsl good_tInt))
+            (fun ρ1 h => R_mono _ _ _ _ _ _ _ (ihE d r ret none Γ ρ1 T2 Γ il (okS_of_okE P d r hs.2) h2 hld.2 (by simp) hret h hG)
+              (fun v hv => hasTy_sub v T2 tInt hv hsr good_tInt))
+            (fun lv rv a b => hop_arith op hA lv rv a b)
+        · split at htc
+          · rename_i hA hB
+            destruct3 h1 : tcExpr P ret none Γ l with T1 Γ1 d1 at htc
+            destruct3 h2 : tcExpr P ret none Γ1 r with T2 Γ2 d2 at htc
+            have hd := (fin_inv _ _ _ _ _ _ htc).2.2.1
+            simp at hd
+            obtain ⟨hd1, hd2⟩ := hd
+            subst hd1; subst hd2
+            have e1 := (inv.1 l ret _ Γ T1 Γ1 hs.1 h1).symm
+            subst e1
+            have e2 := (inv.1 r ret _ Γ T2 Γ2 hs.2 h2).symm
+            subst e2
+            have hop' : op = .eq ∨ op = .ne := by simpa using hB
+            refine R_fin ret tBool T Γ Γ Γ' il _ exp _ ?_ htc hexp
+            exact binop_R P n ρ l r op ret .any tBool Γ il
+              (R_mono _ _ _ _ _ _ _ (ihE d l ret none Γ ρ T1 Γ il (okS_of_okE P d l hs.1) h1 hld.1 (by simp) hret henv hG)
+                (fun v _ => hasTy_any v))
+              (fun ρ1 h => R_mono _ _ _ _ _ _ _ (ihE d r ret none Γ ρ1 T2 Γ il (okS_of_okE P d r hs.2) h2 hld.2 (by simp) hret h hG)
+                (fun v _ => hasTy_any v))
+              (fun lv rv _ _ => hop_eq op hop' lv rv)
+          · rename_i hA hB
+            have key : ∀ opnd res, good opnd = true →
+                (∀ lv rv, hasTy lv opnd = true → hasTy rv opnd = true →
+                  (∀ v, binopVal op lv rv = .ok v → hasTy v res = true) ∧
+                  (∀ e, binopVal op lv rv = .error e → e.isTypeError = false)) →
+                (match tcExpr P ret (some opnd) Γ l with
+                  | (_, Γ1, d1) => match tcExpr P ret (some opnd) Γ1 r with
+                    | (_, Γ2, d2) => fin exp res Γ2 (d1 ++ d2)) = (T, Γ', []) →
+                R ret (resTy exp T) Γ Γ' il (eval P (n + 1) ρ (.binop op l r)) := by
+              intro opnd res gO hop htc'
+              destruct3 h1 : tcExpr P ret (some opnd) Γ l with T1 Γ1 d1 at htc'
+              destruct3 h2 : tcExpr P ret (some opnd) Γ1 r with T2 Γ2 d2 at htc'
+              have hd := (fin_inv _ _ _ _ _ _ htc').2.2.1
+              simp at hd
+              obtain ⟨hd1, hd2⟩ := hd
+              subst hd1; subst hd2
+              have e1 := (inv.1 l ret _ Γ T1 Γ1 hs.1 h1).symm
+              subst e1
+              have e2 := (inv.1 r ret _ Γ T2 Γ2 hs.2 h2).symm
+              subst e2
+              have hE : ∀ E, some opnd = some E → good E = true := by
+                intro E hE; cases hE; exact gO
+              refine R_fin ret res T Γ Γ Γ' il _ exp _ ?_ htc' hexp
+              exact binop_R P n ρ l r op ret opnd res Γ il
+                (ihE d l ret (some opnd) Γ ρ T1 Γ il (okS_of_okE P d l hs.1) h1 hld.1 hE hret henv hG)
+                (fun ρ1 h => ihE d r ret (some opnd) Γ ρ1 T2 Γ il (okS_of_okE P d r hs.2) h2 hld.2 hE hret h hG)
+                hop
+            cases op <;> simp [isIntArith] at hA hB
+            all_goals (try simp only [] at htc)
+            case lt => exact key tInt tBool good_tInt (fun lv rv a b => hop_cmp _ (by simp) lv rv a b) htc
+            case le => exact key tInt tBool good_tInt (fun lv rv a b => hop_cmp _ (by simp) lv rv a b) htc
+            case gt => exact key tInt tBool good_tInt (fun lv rv a b => hop_cmp _ (by simp) lv rv a b) htc
+            case ge => exact key tInt tBool good_tInt (fun lv rv a b => hop_cmp _ (by simp) lv rv a b) htc
+            case and => exact key tBool tBool good_tBool (fun lv rv a b => hop_bool _ (by simp) lv rv a b) htc
+            case or => exact key tBool tBool good_tBool (fun lv rv a b => hop_bool _ (by simp) lv rv a b) htc
+            case concat => exact key tStr tStr good_tStr (fun lv rv a b => hop_concat lv rv a b) htc
+      | ifE c thn hasElse els =>
+        simp only [okS] at hs
+        cases d with
+        | zero => simp [okE] at hs
+        | succ d =>
+        simp only [okE] at hs
+        simp at hs
+        obtain ⟨⟨hsc, hst⟩, hse⟩ := hs
+        simp [s1Diags] at hld
+        obtain ⟨hlc, hlt, hle⟩ := hld
+        have inv := tc_inv P d
+        have gis := tc_gi P d
+        have blkΓ : ∀ es exp0 T0 Γ0, okL P d es = true → tcSeq P ret exp0 ([] :: Γ) es = (T0, Γ0, []) →
+            Γ0.tail = Γ := by
+          intro es exp0 T0 Γ0 hs0 h0
+          obtain ⟨g', hg⟩ := inv.2.1 es ret exp0 [] Γ T0 Γ0 hs0 h0
+          simp [hg]
+        simp only [tcExpr] at htc
+        destruct3 h1 : tcExpr P ret (some tBool) Γ c with T1 Γ1 d1 at htc
+        -- the condition
+        have cond : ∀ (hd1 : d1 = []) (Tr : Ty) (Γr : Blocks Ty),
+            (∀ ρ1, envOK Γ ρ1 → R ret Tr Γ Γr il
+              (if hasElse then leaveBlock true (evalSeq P n ([] :: ρ1) thn) else leaveBlock false (evalSeq P n ([] :: ρ1) thn))) →
+            (∀ ρ1, envOK Γ ρ1 → R ret Tr Γ Γr il
+              (if hasElse then leaveBlock true (evalSeq P n ([] :: ρ1) els) else .val .unit ρ1)) →
+            R ret Tr Γ Γr il (eval P (n + 1) ρ (.ifE c thn hasElse els)) := by
+          intro hd1 Tr Γr hthen helse
+          subst hd1
+          have e1 := (inv.1 c ret _ Γ T1 Γ1 hsc h1).symm
+          subst e1
+          have ihc := ihE d c ret (some tBool) Γ ρ T1 Γ il (okS_of_okE P d c hsc) h1 hlc
+            (by intro E hE; cases hE; exact good_tBool) hret henv hG
+          simp only [eval]
+          cases hev : eval P n ρ c with
+          | val v ρ1 =>
+            rw [hev] at ihc
+            simp [R, resTy] at ihc
+            obtain ⟨b, rfl⟩ := canon_bool v ihc.1
+            simp only []
+            cases b with
+            | true =>
+              have := hthen ρ1 ihc.2
+              cases hasElse <;> simpa using this
+            | false =>
+              have := helse ρ1 ihc.2
+              cases hasElse <;> simpa using this
+          | _ => rw [hev] at ihc; simp [R] at ihc ⊢; try exact ihc
+        split at htc
+        · rename_i hE
+          subst hE
+          split at htc
+          · -- inferred: unify the branch types
+            destruct3 h2 : tcSeq P ret none ([] :: Γ1) thn with T2 Γ2 d2 at htc
+            destruct3 h3 : tcSeq P ret none ([] :: Γ2.tail) els with T3 Γ3 d3 at htc
+            split at htc
+            · rename_i U hU
+              simp at htc
+              obtain ⟨hT, hΓ', hd1, hd2, hd3⟩ := htc
+              subst hd1; subst hd2; subst hd3
+              have e1 := (inv.1 c ret _ Γ T1 Γ1 hsc h1).symm
+              subst e1
+              have e2 := blkΓ thn none T2 Γ2 hst h2
+              rw [e2] at h3
+              have e3 := blkΓ els none T3 Γ3 hse h3
+              rw [e3] at hΓ'
+              subst hΓ'; subst hT
+              have g2 := gis.2.1 thn ret _ T2 Γ2 hst h2 (GoodEnv_push _ hG)
+              have g3 := gis.2.1 els ret _ T3 Γ3 hse h3 (GoodEnv_push _ hG)
+              simp only [resTy]
+              apply cond rfl U Γ
+              · intro ρ1 henv1
+                have := R_leave ret T2 Γ Γ2 il true _ (ihL d thn ret none ([] :: Γ) ([] :: ρ1) T2 Γ2 il hst h2 hlt (by simp) hret
+                  (envOK_push _ _ henv1) (GoodEnv_push _ hG)) e2
+                simp only [resTy, if_true] at this ⊢
+                exact R_mono _ _ _ _ _ _ _ this (fun v hv => (hasTy_unify v T2 T3 U hU g2 g3).1 hv)
+              · intro ρ1 henv1
+                have := R_leave ret T3 Γ Γ3 il true _ (ihL d els ret none ([] :: Γ) ([] :: ρ1) T3 Γ3 il hse h3 hle (by simp) hret
+                  (envOK_push _ _ henv1) (GoodEnv_push _ hG)) e3
+                simp only [resTy, if_true] at this ⊢
+                exact R_mono _ _ _ _ _ _ _ this (fun v hv => (hasTy_unify v T2 T3 U hU g2 g3).2 hv)
+            · simp at htc
+          · rename_i E
+            destruct3 h2 : tcSeq P ret (some E) ([] :: Γ1) thn with T2 Γ2 d2 at htc
+            destruct3 h3 : tcSeq P ret (some E) ([] :: Γ2.tail) els with T3 Γ3 d3 at htc
+            have hd := (fin_inv _ _ _ _ _ _ htc).2.2.1
+            simp at hd
+            obtain ⟨hd1, hd2, hd3⟩ := hd
+            subst hd1; subst hd2; subst hd3
+            have e1 := (inv.1 c ret _ Γ T1 Γ1 hsc h1).symm
+            subst e1
+            have e2 := blkΓ thn _ T2 Γ2 hst h2
+            rw [e2] at h3
+            have e3 := blkΓ els _ T3 Γ3 hse h3
+            rw [e3] at htc
+            have gE := hexp E rfl
+            have hE' : ∀ E', some E = some E' → good E' = true := by
+              intro E' h; cases h; exact gE
+            refine R_fin ret E T Γ Γ Γ' il _ (some E) _ ?_ htc hexp
+            apply cond rfl E Γ
+            · intro ρ1 henv1
+              have := R_leave ret _ Γ Γ2 il true _ (ihL d thn ret (some E) ([] :: Γ) ([] :: ρ1) T2 Γ2 il hst h2 hlt hE' hret
+                (envOK_push _ _ henv1) (GoodEnv_push _ hG)) e2
+              simpa [resTy] using this
+            · intro ρ1 henv1
+              have := R_leave ret _ Γ Γ3 il true _ (ihL d els ret (some E) ([] :: Γ) ([] :: ρ1) T3 Γ3 il hse h3 hle hE' hret
+                (envOK_push _ _ henv1) (GoodEnv_push _ hG)) e3
+              simpa [resTy] using this
+        · rename_i hE
+          simp at hE
+          subst hE
+          destruct3 h2 : tcSeq P ret none ([] :: Γ1) thn with T2 Γ2 d2 at htc
+          have hd := (fin_inv _ _ _ _ _ _ htc).2.2.1
+          simp at hd
+          obtain ⟨hd1, hd2⟩ := hd
+          subst hd1; subst hd2
+          have e1 := (inv.1 c ret _ Γ T1 Γ1 hsc h1).symm
+          subst e1
+          have e2 := blkΓ thn _ T2 Γ2 hst h2
+          rw [e2] at htc
+          refine R_fin ret tUnit T Γ Γ Γ' il _ exp _ ?_ htc hexp
+          apply cond rfl tUnit Γ
+          · intro ρ1 henv1
+            have := R_leave ret _ Γ Γ2 il false _ (ihL d thn ret none ([] :: Γ) ([] :: ρ1) T2 Γ2 il hst h2 hlt (by simp) hret
+              (envOK_push _ _ henv1) (GoodEnv_push _ hG)) e2
+            simpa using this
+          · intro ρ1 henv1
+            simp [R, hasTy, isNamed, tUnit, henv1]
+      | tuple items =>
+        simp only [okS] at hs
+        cases d with
+        | zero => simp [okE] at hs
+        | succ d =>
+        simp only [okE] at hs
+        simp [s1Diags] at hld
+        simp only [tcExpr] at htc
+        destruct3 h1 : tcItems P ret none Γ items with Ts Γ1 d1 at htc
+        have hd := (fin_inv _ _ _ _ _ _ htc).2.2.1
+        subst hd
+        have e1 := ((tc_inv P d).2.2.1 items ret _ Γ Ts Γ1 hs h1).symm
+        subst e1
+        have ih1 := ihA d items ret none Γ ρ Ts Γ il hs h1 hld (by simp) hret henv hG
+        refine R_fin ret (.tuple Ts) T Γ Γ Γ' il _ exp [] ?_ htc hexp
+        simp only [eval]
+        cases hev : evalItems P n ρ items with
+        | vals vs ρ1 => rw [hev] at ih1; simp [RI] at ih1; simp [R, hasTy, ih1.1, ih1.2]
+        | _ => rw [hev] at ih1; simp [RI] at ih1; simp [R]; try exact ih1
+      | list items =>
+        simp only [okS] at hs
+        cases d with
+        | zero => simp [okE] at hs
+        | succ d =>
+        simp only [okE] at hs
+        simp [s1Diags] at hld
+        simp only [tcExpr] at htc
+        split at htc
+        · rename_i a ha
+          have hexpE := listExpected_some exp a ha
+          subst hexpE
+          have ga := good_list_arg _ a (hexp _ rfl)
+          destruct3 h1 : tcItems P ret (some a) Γ items with Ts Γ1 d1 at htc
+          obtain ⟨_, hΓ', hd, _⟩ := fin_inv _ _ _ _ _ _ htc
+          subst hd
+          have e1 := ((tc_inv P d).2.2.1 items ret _ Γ Ts Γ1 hs h1).symm
+          subst e1
+          have hΓ'' := hΓ'.symm
+          subst hΓ''
+          have ih1 := ihA d items ret (some a) Γ ρ Ts Γ il hs h1 hld
+            (by intro E hE; cases hE; exact ga) hret henv hG
+          simp only [eval, resTy]
+          cases hev : evalItems P n ρ items with
+          | vals vs ρ1 => rw [hev] at ih1; simp [RI] at ih1; simp [R, hasTy, ih1.1, ih1.2]
+          | _ => rw [hev] at ih1; simp [RI] at ih1; simp [R]; try exact ih1
+        · destruct3 h1 : tcItems P ret none Γ items with Ts Γ1 d1 at htc
+          split at htc
+          · rename_i U hU
+            have hd := (fin_inv _ _ _ _ _ _ htc).2.2.1
+            subst hd
+            have e1 := ((tc_inv P d).2.2.1 items ret _ Γ Ts Γ1 hs h1).symm
+            subst e1
+            have ih1 := ihA d items ret none Γ ρ Ts Γ il hs h1 hld (by simp) hret henv hG
+            have gT := (tc_gi P d).2.2.1 items ret Γ Ts Γ hs h1 hG
+            refine R_fin ret (tList U) T Γ Γ Γ' il _ exp [] ?_ htc hexp
+            simp only [eval]
+            cases hev : evalItems P n ρ items with
+            | vals vs ρ1 =>
+              rw [hev] at ih1
+              simp [RI] at ih1
+              have hall := hasTyAll_of_zip U vs Ts ih1.1
+                (fun t ht v hv => (hasTy_unifyAllFrom v Ts Ty.noValue U 0 hU gi_noValue gT).2 t ht hv)
+              simp [R, hasTy, tList, hall, ih1.2]
+            | _ => rw [hev] at ih1; simp [RI] at ih1; simp [R]; try exact ih1
+          · have hd := (fin_inv _ _ _ _ _ _ htc).2.2.1
+            simp at hd
+      | call f args =>
+        simp only [okS] at hs
+        cases d with
+        | zero => simp [okE] at hs
+        | succ d =>
+        simp only [okE] at hs
+        simp [s1Diags] at hld
+        simp only [tcExpr] at htc
+        destruct3 h1 : tcItems P ret none Γ args with Ts Γ1 d1 at htc
+        destruct3 h2 : callTy P Γ1 f Ts with T2 Γ2 d2 at htc
+        have hd := (fin_inv _ _ _ _ _ _ htc).2.2.1
+        simp at hd
+        obtain ⟨hd1, hd2⟩ := hd
+        subst hd1; subst hd2
+        have e1 := ((tc_inv P d).2.2.1 args ret _ Γ Ts Γ1 hs h1).symm
+        subst e1
+        have e2 := (callTy_env P Γ Γ2 f Ts T2 h2).symm
+        subst e2
+        have ih1 := ihA d args ret none Γ ρ Ts Γ il hs h1 hld (by simp) hret henv hG
+        refine R_fin ret T2 T Γ Γ Γ' il _ exp [] ?_ htc hexp
+        simp only [eval]
+        have hb := callTy_bound P Γ Γ f Ts T2 h2
+        have hl := lookupB_ok Γ ρ f henv
+        have hcond : ((lookupB ρ f).isNone && (globalOf P f).isNone) = false := by
+          cases hg : lookupB Γ f with
+          | some T0 => obtain ⟨v, hv, _⟩ := hl.1 T0 hg; simp [hv]
+          | none =>
+            cases hgl : globalOf P f with
+            | some g => simp
+            | none => exact absurd ⟨hg, hgl⟩ hb
+        simp only [hcond]
+        cases hev : evalItems P n ρ args with
+        | vals vs ρ1 =>
+          rw [hev] at ih1
+          simp [RI] at ih1
+          simp
+          exact ihF f vs ret Γ ρ1 Ts T2 Γ il h2 ih1.1 ih1.2
+        | _ => rw [hev] at ih1; simp [RI] at ih1; simp [R]; try exact ih1
+      | assign x e =>
+        simp only [okS] at hs
+        cases d with
+        | zero => simp [okE] at hs
+        | succ d =>
+        simp only [okE] at hs
+        simp [s1Diags] at hld
+        simp only [tcExpr] at htc
+        destruct3 h1 : varForAssign P Γ x with T1 Γ1 d1 at htc
+        destruct3 h2 : tcExpr P ret (some T1) Γ1 e with T2 Γ2 d2 at htc
+        have hd := (fin_inv _ _ _ _ _ _ htc).2.2.1
+        simp at hd
+        obtain ⟨hd1, hd2⟩ := hd
+        subst hd1; subst hd2
+        obtain ⟨e1, hlk⟩ := varForAssign_env P Γ Γ1 x T1 h1
+        subst e1
+        have e2 := ((tc_inv P d).1 e ret _ Γ1 T2 Γ2 hs h2).symm
+        subst e2
+        have gT1 := gi_good T1 (lookupB_gi Γ1 x T1 hG hlk)
+        have ih1 := ihE d e ret (some T1) Γ1 ρ T2 Γ1 il (okS_of_okE P d e hs) h2 hld
+          (by intro E hE; cases hE; exact gT1) hret henv hG
+        refine R_fin ret tUnit T Γ1 Γ1 Γ' il _ exp _ ?_ htc hexp
+        simp only [eval]
+        cases hev : eval P n ρ e with
+        | val v ρ1 =>
+          rw [hev] at ih1
+          simp [R, resTy] at ih1
+          obtain ⟨w, hw, _⟩ := (lookupB_ok Γ1 ρ1 x ih1.2).1 T1 hlk
+          simp [hw, R, hasTy, isNamed, tUnit]
+          exact assignB_ok Γ1 ρ1 x T1 v ih1.2 hlk ih1.1
+        | _ => rw [hev] at ih1; simp [R] at ih1 ⊢; try exact ih1
+      | _ => simp [s1Diags] at hld
+    · -- blocks
+      intro d es ret exp Γ ρ T Γ' il hs htc hld hexp hret henv hG
+      cases d with
+      | zero => simp [okL] at hs
+      | succ d =>
+      cases es with
+      | nil =>
+        simp only [tcSeq] at htc
+        simp only [evalSeq]
+        simp at htc
+        obtain ⟨hT, hΓ', hd⟩ := htc
+        subst hT; subst hΓ'
+        simp [R, henv]
+        cases exp with
+        | none => simp [resTy, hasTy, isNamed, tUnit]
+        | some E =>
+          simp [resTy]
+          simp at hd
+          exact hasTy_sub .unit tUnit E (by simp [hasTy, isNamed, tUnit]) hd (hexp E rfl)
+      | cons e rest =>
+        simp only [okL] at hs
+        simp at hs
+        have hs1 : okS P d e = true := by unfold okS; exact hs.1
+        rw [s1DiagsL_cons] at hld
+        cases rest with
+        | nil =>
+          simp only [tcSeq] at htc
+          simp only [evalSeq]
+          exact ihE d e ret exp Γ ρ T Γ' il hs1 htc hld.1 hexp hret henv hG
+        | cons e2 rest =>
+          simp only [tcSeq] at htc
+          destruct3 h1 : tcExpr P ret none Γ e with T1 Γ1 d1 at htc
+          destruct3 h2 : tcSeq P ret exp Γ1 (e2 :: rest) with T2 Γ2 d2 at htc
+          simp only [Prod.mk.injEq] at htc
+          obtain ⟨hT, hΓ', hd⟩ := htc
+          obtain ⟨hd1, hd2⟩ := List.append_eq_nil_iff.mp hd
+          subst hd1; subst hd2; subst hT; subst hΓ'
+          have ih1 := ihE d e ret none Γ ρ T1 Γ1 il hs1 h1 hld.1 (by simp) hret henv hG
+          have htail := stmt_tail P d e ret none Γ Γ1 T1 hs1 h1
+          have hG1 := stmt_goodenv P d (tc_gi P d).1 e ret none Γ Γ1 T1 hs1 h1 hG
+          simp only [evalSeq]
+          cases hev : eval P n ρ e with
+          | val v ρ1 =>
+            rw [hev] at ih1
+            simp [R] at ih1
+            exact R_reΓ _ _ Γ Γ1 _ il _
+              (ihL d (e2 :: rest) ret exp Γ1 ρ1 T2 Γ2 il hs.2 h2 hld.2 hexp hret ih1.2 hG1) htail
+          | _ => rw [hev] at ih1; simp [R] at ih1 ⊢; try exact ih1
+    · -- items / arguments (checked left to right, evaluated right to left)
+      intro d es ret exp Γ ρ Ts Γ' il hs htc hld hexp hret henv hG
+      cases d with
+      | zero => simp [okA] at hs
+      | succ d =>
+      cases es with
+      | nil =>
+        simp [tcItems] at htc
+        obtain ⟨hT, _⟩ := htc
+        subst hT
+        simp only [evalItems]
+        cases exp <;> simp [RI, hasTyZip, hasTyAll, henv]
+      | cons e rest =>
+        simp only [okA] at hs
+        simp at hs
+        rw [s1DiagsL_cons] at hld
+        simp only [tcItems] at htc
+        destruct3 h1 : tcExpr P ret exp Γ e with T1 Γ1 d1 at htc
+        destruct3 h2 : tcItems P ret exp Γ1 rest with T2 Γ2 d2 at htc
+        simp only [Prod.mk.injEq] at htc
+        obtain ⟨hT, _, hd⟩ := htc
+        obtain ⟨hd1, hd2⟩ := List.append_eq_nil_iff.mp hd
+        subst hd1; subst hd2; subst hT
+        have e1 := ((tc_inv P d).1 e ret _ Γ T1 Γ1 hs.1 h1).symm
+        subst e1
+        have ihr := ihA d rest ret exp Γ ρ T2 Γ2 il hs.2 h2 hld.2 hexp hret henv hG
+        simp only [evalItems]
+        cases hev : evalItems P n ρ rest with
+        | vals vs ρ1 =>
+          rw [hev] at ihr
+          simp [RI] at ihr
+          have ih1 := ihE d e ret exp Γ ρ1 T1 Γ il (okS_of_okE P d e hs.1) h1 hld.1 hexp hret ihr.2 hG
+          simp only []
+          cases hev1 : eval P n ρ1 e with
+          | val v ρ2 =>
+            rw [hev1] at ih1
+            simp [R] at ih1
+            cases exp with
+            | none => simp [RI, hasTyZip, resTy] at ih1 ihr ⊢; exact ⟨⟨ih1.1, ihr.1⟩, ih1.2⟩
+            | some a => simp [RI, hasTyAll, resTy] at ih1 ihr ⊢; exact ⟨⟨ih1.1, ihr.1⟩, ih1.2⟩
+          | _ => rw [hev1] at ih1; simp [R] at ih1; simp [RI]; try exact ih1
+        | _ => rw [hev] at ihr; simp [RI] at ihr ⊢; try exact ihr
+    · -- calls
+      intro f vs ret Γ ρ tys T Γ' il hct hz henv
+      have hl := lookupB_ok Γ ρ f henv
+      simp only [callFn]
+      unfold callTy at hct
+      cases hg : lookupB Γ f with
+      | some T0 =>
+        obtain ⟨w, hw, hwt⟩ := hl.1 T0 hg
+        rw [hg] at hct
+        simp only at hct
+        split at hct
+        · simp [hasTy_err] at hwt
+        · simp [hasTy_fn] at hwt
+        · split at hct
+          · rename_i hnv
+            simp [hasTy_noValue w T0 hnv] at hwt
+          · simp at hct
+      | none =>
+        rw [hg] at hct
+        simp only at hct
+        simp only [hl.2 hg]
+        cases hgl : globalOf P f with
+        | none => rw [hgl] at hct; simp at hct
+        | some g =>
+          rw [hgl] at hct
+          cases g with
+          | val T0 =>
+            simp only at hct
+            split at hct
+            · rename_i hnv
+              -- value globals are never NoValue
+              unfold globalOf at hgl
+              repeat' split at hgl
+              all_goals simp at hgl
+              all_goals (subst hgl; simp [Ty.isNoValue, tOption, tBool, tUnit] at hnv)
+            · simp at hct
+          | someC =>
+            simp only at hct
+            split at hct
+            · rename_i a
+              simp at hct
+              cases vs with
+              | nil => simp [hasTyZip] at hz
+              | cons v vs =>
+                cases vs with
+                | nil =>
+                  simp [hasTyZip] at hz
+                  simp [R, henv, ← hct.1, hasTy, tOption, hz]
+                | cons v2 vs => simp [hasTyZip] at hz
+            · simp at hct
+            · simp at hct
+          | printLike =>
+            simp only at hct
+            split at hct
+            · rename_i a
+              simp at hct
+              obtain ⟨hT, _, hsub⟩ := hct
+              cases vs with
+              | nil => simp [hasTyZip] at hz
+              | cons v vs =>
+                cases vs with
+                | nil =>
+                  simp [hasTyZip] at hz
+                  obtain ⟨s, rfl⟩ := canon_str v (hasTy_sub v a tStr hz hsub good_tStr)
+                  simp [R, henv, ← hT, hasTy, isNamed, tUnit]
+                | cons v2 vs => simp [hasTyZip] at hz
+            · simp at hct
+          | stringRepr =>
+            simp only at hct
+            split at hct
+            · simp at hct
+              cases vs with
+              | nil => simp [hasTyZip] at hz
+              | cons v vs =>
+                cases vs with
+                | nil => simp [R, henv, ← hct.1, hasTy, isNamed, tStr]
+                | cons v2 vs => simp [hasTyZip] at hz
+            · simp at hct
+          | fn ps r =>
+            simp only at hct
+            obtain ⟨fd, hfd, hps, hr⟩ := globalOf_fn P f ps r hgl
+            split at hct
+            · rename_i hlen
+              simp at hct hlen
+              obtain ⟨hT, _, hdiag⟩ := hct
+              subst hT
+              have hzl := hasTyZip_length vs tys hz
+              have hpl : fd.params.length = ps.length := by rw [hps]; simp [paramTys]
+              have hargs : hasTyZip vs (fd.params.map (fun p => p.2.toTy)) = true := by
+                have := args_sub ps vs tys hz hlen (by rw [hps]; exact paramTys_goodL fd.params)
+                  (by simpa using hdiag)
+                rw [hps] at this
+                exact this
+              simp only [hfd]
+              have hne : (fd.params.length != vs.length) = false := by
+                simp; omega
+              simp only [hne]
+              simp [paramsOk_of fd.params vs hargs]
+              obtain ⟨hok, hchk, hloop⟩ := hP fd (findFun_mem P f fd hfd)
+              obtain ⟨Tb, Γb, db, hb⟩ := triple_exists (tcSeq P fd.ret.toTy (some fd.ret.toTy) ([] :: [paramBlock fd, []]) fd.body)
+              rw [hb] at hchk
+              simp at hchk
+              subst hchk
+              have gret := Hint.toTy_good fd.ret
+              have envb : envOK ([] :: [paramBlock fd, []]) ([] :: [bindParams fd.params vs [], []]) := by
+                simp [envOK, blockOK]
+                exact bind_ok fd.params vs [] [] hargs (by simp [blockOK])
+              have gb : GoodEnv ([] :: [paramBlock fd, []]) := by
+                intro b hb'
+                simp at hb'
+                rcases hb' with rfl | rfl | rfl
+                · simp
+                · exact foldl_setBlock_gi fd.params [] (by simp)
+                · simp
+              have ihb := ihL D fd.body fd.ret.toTy (some fd.ret.toTy) _ _ Tb Γb false hok hb hloop
+                (by intro E hE; cases hE; exact gret) gret envb gb
+              have fin_ok : ∀ v, hasTy v fd.ret.toTy = true →
+                  R ret r Γ Γ il (if Ty.sub (typeOf v) fd.ret.toTy = true then Res.val v ρ else Res.err RErr.retType) := by
+                intro v hv
+                simp [hasTy_sub_typeOf v _ hv, R, henv, hr, hv]
+              cases hev : evalSeq P n ([] :: [bindParams fd.params vs [], []]) fd.body with
+              | val v ρb => rw [hev] at ihb; simp [R, resTy] at ihb; simpa using fin_ok v ihb.1
+              | ret v => rw [hev] at ihb; simp [R] at ihb; simpa using fin_ok v ihb
+              | brk ρb => rw [hev] at ihb; simp [R] at ihb
+              | cont ρb => rw [hev] at ihb; simp [R] at ihb
+              | err er => rw [hev] at ihb; simp [R] at ihb ⊢; exact ihb
+              | timeout => simp [R]
+            · simp at hct
+
+
 end Check
